@@ -12,280 +12,257 @@ Definition show_fres (r : fres) : string :=
   end.
 Definition check (rs : list rune) : string := digest (show_fres (format_res rs)).
 Definition full (rs : list rune) : string := show_fres (format_res rs).
-Eval vm_compute in ("<<<M4079>>>" ++ check (runes_of_ascii "root packet rootA {
-    @calculatedFrom("""")
-    match packetx as x_y_z {
-        // `tick` ""quote"" 'q'
-        """ ++ [28040; 24687]%N ++ runes_of_ascii """ : crc,
-        ""a	b"" : i8i8,
-        ""it's"" : msg_type,
-        10 : string_,
-        0123456789 : int,
-    },
-    zchar[0123456789] _x `say ""hi""`,
-    @lengthOf(lengthOf)
-    repeat chars {
-        repeat i16 u,
-    },
-    i16 u @lengthOf(Pad) `say ""hi""`,
-    string u8x @calculatedFrom(""\n"") `" ++ [233]%N ++ runes_of_ascii "`,
-    MetaDataX `" ++ [233]%N ++ runes_of_ascii "`,
-    char[] Header @lengthOf(Foo) `u8 x,`,//
+Eval vm_compute in ("<<<M4322>>>" ++ check (runes_of_ascii "root packet charz {
+    repeat o Packet,
 }
 
-// c
-// " ++ [128512]%N ++ runes_of_ascii " emoji
-packet repeatCount {
-    @tag(7)
-    char[] x_y_z `it's`,
-    @calculatedFrom(""`tick`"")
-    repeat o,
-    @lengthOf(pack)
-    @lengthOf(u128)
-    @lengthOf(stringy)
-    match zchar as MetaDataX {
-        [0, ""// no comment""] : options1,
-        [7, 0123456789, ""a	b"", ""`tick`"", """ ++ [233]%N ++ runes_of_ascii "t" ++ [233]%N ++ runes_of_ascii """] : string_,
-        ""a\""b"" : len,
-        ""a\\"" : MetaDataX,
+packet float {
+    match crc as body {
+        ""\" ++ [233]%N ++ runes_of_ascii """ : f32a,
+        4294967296 : len,
+        [""// no comment""] : lengthOf,
+        65535 : i64_,
+        //x
+        //
+        4294967296 : Pad,
     },
-    u8x {
-        repeat chars MetaDataX `two words`,
-        repeat Header len ``,
-        pack {
-            u16 asx @calculatedFrom(""`tick`"") `line1
-                        line2`,
-            f64 string_,
-            float32 zchar @lengthOf(i8i8),
-            As @lengthOf(_x) `u8 x,`,
+    Logon,
+    float64 body @lengthOf(leftPad) `say ""hi""`,
+    match u8x as repeatCount {
+        // @lengthOf(
+        """ ++ [128512]%N ++ runes_of_ascii """ : i8i8,
+        ""\n"" : tag,
+        7 : pack,
+        """ ++ [28040; 24687]%N ++ runes_of_ascii """ : calculatedFrom,
+        /// triple
+        [0, ""it's""] : int,
+    },
+    char[0] stringy,
+    repeat float32 trueish `u8 x,`,
+    char[] T,
+}
+
+packet calculatedFrom {
+    matchKey matchKey,
+    @leftPad()
+    msg_type,
+    int16 BodyLength `" ++ [233]%N ++ runes_of_ascii "`,
+    char[255] packetx,
+    @calculatedFrom(""x y"")
+    match Packet as uint8x {
+        ""\n"" : repeatCount,
+        [65535] : leftPad,
+        ""\n"" : trueish,
+        [""" ++ [233]%N ++ runes_of_ascii "t" ++ [233]%N ++ runes_of_ascii """, 1, ""abc"", 10] : f32a,
+        // " ++ [27880; 37322]%N ++ runes_of_ascii "
+        [""// no comment""] : u,
+        // @lengthOf(
+        65535 : matchKey,
+    },
+    match _x as float {
+        ""x y"" : len,
+    },
+    char a1 @lengthOf(i64_),
+    _x @calculatedFrom(""\n"") `// not a comment`,
+    repeat calculatedFrom {
+        zchar[1] Foo,
+        char[7] options1 `tab	here`,//
+        match chars as A {
+            4294967296 : string_,
         },
-        int32 roots `doc`,
+        u8x @calculatedFrom(""`tick`""),
     },
 }
 
-packet As {
-    @lengthOf(leftPad)
-    @calculatedFrom("""")
-    x_y_z @lengthOf(i8i8) `" ++ [233]%N ++ runes_of_ascii "`,
-    repeat float32 Z9_,// `tick` ""quote"" 'q'
-    pack,
-    msg_type,// `tick` ""quote"" 'q'
+packet calculatedFrom {
+    @lengthOf(tag)
+    @leftPad('\x00')
     @rightPad('0')
-    // a // b
+    char[0123456789] u128,
+    rootA {
+        zchar[4294967296] _x @lengthOf(metadata),
+    },
+    Header u,
+    @calculatedFrom(""it's"")
     // @lengthOf(
-    u16 crc,
-    @lengthOf(chars)
-    repeat x `it's`,
+    // trailing space 
+    Pad @calculatedFrom(""abc""),
+    @lengthOf(u)
+    @lengthOf(len)
+    @rightPad()
+    // trailing space 
+    int64 uint8x `// not a comment`,
 }
 
-packet body {
-    @calculatedFrom(""" ++ [28040; 24687]%N ++ runes_of_ascii """)
-    T @lengthOf(u8x),
-    @tag(3)
-    // packet A { u8 x, }
-    u32 u @lengthOf(msg_type),
-    @calculatedFrom(""" ++ [128512]%N ++ runes_of_ascii """)
-    repeat char[10] A,
-    x {
-        string o,
-        match Pad as rootA {
-            ""packet"" : matchKey,
-        },
-        u64 x_y_z,
-        char[] leftPad @lengthOf(float),/// triple
-    },
-    repeat uint8x falsey `" ++ [233]%N ++ runes_of_ascii "`,
-    @lengthOf(Z9_)
-    u8 f32a,
-    @tag(0123456789)
-    // @lengthOf(
-    // `tick` ""quote"" 'q'
-    u8 matchKey ``,
-    Pad trueish `say ""hi""`,
+root packet roots {
+    u @lengthOf(i8i8),
+    @calculatedFrom(""\" ++ [233]%N ++ runes_of_ascii """)
+    BodyLength Logon,
+    uint16 body @lengthOf(f32a) `a\`,
+    int16 zchar,
+    @calculatedFrom(""a	b"")
+    u32 u128 `
+    `,
+    Pad T `
+    `,
 }")).
-Eval vm_compute in ("<<<M758>>>" ++ check (runes_of_ascii "root packet o
-    {
-@lengthOf( BodyLength) uint64 string_@calculatedFrom( ""a\""b""
-) ,	repeat tag { match crc  as  lengthOf
-    { ""{,}"" :
-    //	t
-    i8i8 , 255 : trueish
-// c
-/// triple
-[ 10
-    // @lengthOf(
-    , 1 ,
+Eval vm_compute in ("<<<M121>>>" ++ check (runes_of_ascii "packet body{ Z9_ {
+    string leftPad `crlf
+line` , msg_type { // c
+uint64 tag  `{ , }` ,repeat f64 BodyLength
+,} , i8i8 BodyLength , }
     // " ++ [128512]%N ++ runes_of_ascii " emoji
-    ""abc"" , 0123456789 ,
-4294967296
-    ,
-00
-    ]	: body } ,
-int32 uint8x @calculatedFrom( ""// no comment"" ) ,// @lengthOf(
-zchar[3
-] msg_type `` , repeat
-float32 pack`it's` //
-, }, match  u as _x	{
-00
-: calculatedFrom , 255 // @lengthOf(
-: float ,
-""\n"" : repeatCount,
-    } ,@tag(
-3
-    ) match
-// c
-//
-A as Z9_ { ""a\\"": //x
-rootA""// no comment"" : f32a,[ ""x y"" ]: i64_ } ,x_y_z ,
-int32 f32a , // packet A { u8 x, }
-@leftPad
-    (
-)
-f32 roots , @lengthOf( packetx ) @tag(  255 )// c
-@tag(
-    3
-    )i32
+    , falsey //
+,@leftPad ( // c
+'0') @lengthOf(
+    falsey	)
+    f32 Z9_
+@lengthOf(  o )
+    , @calculatedFrom(
+""" ++ [233]%N ++ runes_of_ascii "t" ++ [233]%N ++ runes_of_ascii """ )
+repeat string //x
+As
+,@lengthOf(falsey) @calculatedFrom( ""a	b"")
+    @tag( 3
+) repeat Header{
+Packet@lengthOf(
+    crc )
+    , repeat int16
+As
+, repeat uint16 // packet A { u8 x, }
+f32a , } , @lengthOf(float )@tag(
+    3 )
+    // a // b
+    @tag(// " ++ [128512]%N ++ runes_of_ascii " emoji
+10 )	roots
+BodyLength , string tag //	t
+,
+} MetaData int {  char[ 1 ] As
+, Packet u128 , // c
+pack
+    x_y_z
+`{ , }` ,
     string_
-    @calculatedFrom(
-//	t
-// packet A { u8 x, }
-""" ++ [128512]%N ++ runes_of_ascii """)
-    `doc`,@leftPad ( ) int8 trueish // `tick` ""quote"" 'q'
-@lengthOf(	uint8x
-/// triple
-// " ++ [27880; 37322]%N ++ runes_of_ascii "
-) ,
-    zchar[
-    007] tag
-    @calculatedFrom(""{,}"" )
-    , } packet leftPad {
-string Foo
-, metadata
-//	t
-// " ++ [128512]%N ++ runes_of_ascii " emoji
-u8x ,
-msg_type // c
-`
-` ,  @leftPad
-(
-    )
-repeat metadata {
-//x
-//	t
-char[]
-// a // b
-// packet A { u8 x, }
-i8i8@calculatedFrom( ""CRC32""
-)
-    , char[1  ] rootA , match falsey as zchar { 4294967296 :leftPad}
-, // c
-char[/// triple
-007 ]stringy @lengthOf(
-    /// triple
-    i64_	)`a\` ,// packet A { u8 x, }
-} ,
-    @rightPad (
-    '0'
-) @lengthOf(
-    /// triple
-    x
-    ) @calculatedFrom(
-""1"" ) repeat roots
-    ,
-    char[]  int@calculatedFrom(""" ++ [128512]%N ++ runes_of_ascii """)`a\`
-    ,zchar[
-42 ] stringy ,
-@lengthOf(chars )
-char[ 255 ] int,
-    crc@lengthOf(
-    falsey
-    )`line1
-line2`
-    ,}
-// trailing space 
-")).
-Eval vm_compute in ("<<<M821>>>" ++ check (runes_of_ascii "
-options {
-    msg_type
-    = ""{,}"" ;
-    asx =true ; trueish = ""// no comment""
-Pad =
-""\n"";
-    metadata =uint64
-;
-    }root // @lengthOf(
-packet
-// @lengthOf(
-// c
-int{  @tag(  0123456789) @tag( //	t
-00
-) @calculatedFrom(
-""packet"" )zchar[4294967296
-    ] leftPad `line1
-line2` , @calculatedFrom( ""x y"")
-falsey
-@calculatedFrom( ""x y""
-//
-// `tick` ""quote"" 'q'
-) ,
-repeat uint8 Packet ,@tag(
-4294967296 ) u8x ,
-    repeat	char[ 42
-] Logon `it's` , int16
-falsey@calculatedFrom( ""it's""
-)
-    //
-    ,
-msg_type
-@lengthOf(leftPad
-)
-    /// triple
-    `" ++ [28040; 24687; 31867; 22411]%N ++ runes_of_ascii "` , match string_ as	charz
+len ,
+zchar[
+0
+] Header , string
+    zchar `
+`, } root packet uint8x { char[] u128
+, }root packet crc { repeat trueish { f32 lengthOf `say ""hi""` , i8 crc	@calculatedFrom( """ ++ [233]%N ++ runes_of_ascii "t" ++ [233]%N ++ runes_of_ascii """) , match Z9_ as repeatCount
     {
-    //
-    ""it's"" :Foo ,0123456789:
-calculatedFrom ""// no comment""
-    : T,
-[
-    ""// no comment""
-, 65535  , ""a\\""
-    , ""abc"",007
-,// " ++ [27880; 37322]%N ++ runes_of_ascii "
-""// no comment"" ,  4294967296	]  :
-Z9_
-}
-    // packet A { u8 x, }
-    ,float64  charz@lengthOf( Z9_ ) `a\`,
-} packet a1 { } packet T  { } packet i64_	{ repeat zchar[65535
-]
-Logon, @calculatedFrom( ""CRC32"" // " ++ [128512]%N ++ runes_of_ascii " emoji
-)repeat string stringy `crlf
-line` ,
-    repeat char[ 007 ] leftPad ,
+    [ 3 ] :  string_
+, ""it's""  : A 0 :	u8x 65535 : u128  } , // trailing space 
+i32 x , },char[]
+    pack `// not a comment` , char[]leftPad @calculatedFrom("""" ) `
+` ,
+string o `doc` ,}
+    packet// " ++ [27880; 37322]%N ++ runes_of_ascii "
+rootA  { // " ++ [128512]%N ++ runes_of_ascii " emoji
+repeat x_y_z{
+    zchar[
+//	t
+//	t
+3 ]
+    stringy
+`crlf
+line`,  BodyLength
+    BodyLength
+    `` , lengthOf
 @calculatedFrom(
-    //
-    ""abc""
-    ) string calculatedFrom `two words`, len {
-    // `tick` ""quote"" 'q'
-    float64 lengthOf `" ++ [28040; 24687; 31867; 22411]%N ++ runes_of_ascii "`
-// " ++ [27880; 37322]%N ++ runes_of_ascii "
-// packet A { u8 x, }
-, } ,A
-    @calculatedFrom(""abc""
-) `line1
-line2` ,
-    zchar[  10] charz `" ++ [28040; 24687; 31867; 22411]%N ++ runes_of_ascii "` ,repeat Packet ,
-    // packet A { u8 x, }
-    string
-As	@lengthOf( roots ) , @tag( 7
-) Packet chars ,
-//x
-// trailing space 
-}
+""x y""
+) , // c
+float64
+    // " ++ [27880; 37322]%N ++ runes_of_ascii "
+    Logon	@calculatedFrom(
+""a\\"" ) ,
+} , @lengthOf( Pad
+)// `tick` ""quote"" 'q'
+@calculatedFrom( ""abc"") @tag(4294967296 )uint8x @lengthOf( // packet A { u8 x, }
+crc )  ,
+@calculatedFrom( //	t
+""" ++ [233]%N ++ runes_of_ascii "t" ++ [233]%N ++ runes_of_ascii """  )
+string u
+@lengthOf(
+uint8x)
+    `// not a comment` ,u
+    metadata`u8 x,`
+,
+    }
 ")).
-Eval vm_compute in ("<<<M1401>>>" ++ check (runes_of_ascii "options {
-	StringPrefixLenType = u16;
-	ArrayPrefixLenType = u16;
+Eval vm_compute in ("<<<M103>>>" ++ check (runes_of_ascii "packet
+trueish {
+@calculatedFrom(	"""" ) u
+    @lengthOf( a1
+) ,
+} options //	t
+{
+    trueish =
+42 }
+options { //	t
+}packet Foo {match matchKey
+as body	{
+    // `tick` ""quote"" 'q'
+    [4294967296 ]	: Packet , 00 : A ,
+    } , @calculatedFrom( ""x y"" ) // " ++ [27880; 37322]%N ++ runes_of_ascii "
+@lengthOf(	a1)
+    repeat f64	rootA , } packet len{ @calculatedFrom( ""// no comment"") string T @lengthOf(
+f32a )
+    , float32 chars
+    , @rightPad ( ' ' ) repeat chars{ string A , string
+i64_ `line1
+line2`
+,
+float32
+    //
+    i8i8 ,uint64
+    /// triple
+    matchKey @calculatedFrom( ""abc"" )
+/// triple
+// `tick` ""quote"" 'q'
+`" ++ [233]%N ++ runes_of_ascii "` , } , A
+    `a\` ,
+@tag( 00
+)
+    @tag( 0123456789 )
+    @tag( 1	)
+u128 {i64_
+    {
+// c
+// trailing space 
+BodyLength , i64 u
+`{ , }` , match
+    Z9_
+    as
+chars /// triple
+{ ["""" ] : // `tick` ""quote"" 'q'
+float , [ 0123456789  , 42
+    , 3 ,
+    //	t
+    10  , 10 ]
+// a // b
+/// triple
+: stringy , ""1"" :trueish , // packet A { u8 x, }
+""packet"" : u128 [
+""x y"" ,7 ] : A
+} ,
+    int32	a1 ,} , rootA
+//x
+/// triple
+`doc` ,
+//x
+// `tick` ""quote"" 'q'
+} , @rightPad ( ' ' ) repeat options1  { int
+    @calculatedFrom( ""packet"" ) , // " ++ [128512]%N ++ runes_of_ascii " emoji
+} , repeat char[65535]
+    falsey
+    // packet A { u8 x, }
+    , @rightPad ( ) repeat char[] i8i8,
+repeat calculatedFrom  msg_type ,@rightPad (	) @tag(
+65535 ) repeat calculatedFrom crc , } 	 ")).
+Eval vm_compute in ("<<<M1404>>>" ++ check (runes_of_ascii "options {
+    StringPrefixLenType = u16;
+    ArrayPrefixLenType = u16;
 }
 
 packet SampleBinary {
@@ -298,12 +275,12 @@ packet SampleBinary {
         4 : RiskControlRequest,
         5 : RiskControlResponse,
     },
-        @calculatedFrom(""CRC32"")
+    @calculatedFrom(""CRC32"")
     u32 Ckecksum `" ++ [26657; 39564; 21644]%N ++ runes_of_ascii "`,
 }
 
 packet Logon {
-     @leftPad('0')
+    @leftPad('0')
     char[10] UserName `" ++ [29992; 25143; 21517]%N ++ runes_of_ascii "`,
     string Password `" ++ [23494; 30721]%N ++ runes_of_ascii "`,
     uint64 ClientId `" ++ [23458; 25143; 31471]%N ++ runes_of_ascii "ID`,
@@ -311,7 +288,7 @@ packet Logon {
 }
 
 packet Logout {
-      @rightPad('0')
+    @rightPad('0')
     char[10] UserName `" ++ [29992; 25143; 21517]%N ++ runes_of_ascii "`,
     uint64 ClientId `" ++ [23458; 25143; 31471]%N ++ runes_of_ascii "ID`,
 }
@@ -330,10 +307,10 @@ packet RiskControlRequest {
     u32 Qty `" ++ [25968; 37327]%N ++ runes_of_ascii "`,
     repeat string ExtraInfo `" ++ [38468; 21152; 20449; 24687]%N ++ runes_of_ascii "`,
     repeat SubOrder {
-    		char[16] ClOrdID `" ++ [23376; 35746; 21333; 21495]%N ++ runes_of_ascii "`,
-    		u64 Price `" ++ [23376; 35746; 21333; 20215; 26684]%N ++ runes_of_ascii "`,
-    		u32 Qty `" ++ [23376; 35746; 21333; 25968; 37327]%N ++ runes_of_ascii "`,
-    	},
+        char[16] ClOrdID `" ++ [23376; 35746; 21333; 21495]%N ++ runes_of_ascii "`,
+        u64 Price `" ++ [23376; 35746; 21333; 20215; 26684]%N ++ runes_of_ascii "`,
+        u32 Qty `" ++ [23376; 35746; 21333; 25968; 37327]%N ++ runes_of_ascii "`,
+    },
 }
 
 packet RiskControlResponse {
@@ -413,1036 +390,938 @@ roots
 //x
 `{ , }` , } root packet calculatedFrom{ }
 ")).
-Eval vm_compute in ("<<<M4244>>>" ++ check (runes_of_ascii "
-
-  options
-{	StringPrefixLenType
-
-=  u8
-	; ArrayPrefixLenType
-    =
-    u8 
-;
-FixedStringPadFromLeft =true
-    ;  FixedStringPadChar = ' ';
-	} packet Logout 
-{  repeat
-string	Px
-    ,repeat
-	string seqNo,	InMsgkind64
-{  uint16
-
-    OrderId
-,
-	char[]  count
-
-, repeat
-	i32 venue
-	, }
-,
-
+Eval vm_compute in ("<<<M1257>>>" ++ check (runes_of_ascii "//	t
+MetaData i8i8 {
+char packetx`
+`
+// a // b
+// `tick` ""quote"" 'q'
+, // c
+char[]
+Header`" ++ [233]%N ++ runes_of_ascii "` , u32 options1 , Header i8i8
+`two words`
+    , }
+root packet Header {
+    match falsey
+as pack // packet A { u8 x, }
+{// c
+""CRC32"" :crc  ,
     }
-
+    ,o rootA //	t
+,
+match  rootA as u { [255
+,
+    ""\n"" ]
+:metadata , 42 : uint8x
+,
+[ """ ++ [128512]%N ++ runes_of_ascii """]
+    :float , // " ++ [128512]%N ++ runes_of_ascii " emoji
+""\n""	: u ,
+3: MetaDataX} ,
+    @leftPad ('\x00' )float64
+    Packet
+@calculatedFrom( ""abc""
+)	`say ""hi""` , repeat u8x	, @lengthOf(
+msg_type )  uint8x
+    // c
+    {
+packetx
+    // " ++ [128512]%N ++ runes_of_ascii " emoji
+    repeatCount
+, asx
+@calculatedFrom(
+""x y"" ) , zchar[007 /// triple
+]
+u `say ""hi""` // c
+, } , repeat i16
+calculatedFrom
+    `
+`// c
+, int16 //	t
+T// " ++ [27880; 37322]%N ++ runes_of_ascii "
+@calculatedFrom( ""a	b"" ) ,
+@rightPad ( )char[00 ]Foo
+    @lengthOf(pack )
+    `tab	here` ,
+    uint8x `" ++ [28040; 24687; 31867; 22411]%N ++ runes_of_ascii "` , } options  {x_y_z = 255; metadata
+= ""CRC32"" ; leftPad =  ""{,}"";
+    u128 = true tag
+= string;
+// " ++ [128512]%N ++ runes_of_ascii " emoji
+// a // b
+} root
+packet x_y_z { @lengthOf(  body
+    ) int32
+    // `tick` ""quote"" 'q'
+    Z9_ @calculatedFrom(
+    ""{,}""
+)`" ++ [28040; 24687; 31867; 22411]%N ++ runes_of_ascii "` // " ++ [128512]%N ++ runes_of_ascii " emoji
+,
+}
+")).
+Eval vm_compute in ("<<<M139>>>" ++ check (runes_of_ascii "
+packet len{ repeat i8i8 `u8 x,`
+    ,
+// @lengthOf(
+// a // b
+repeat char[ // c
+0123456789
+//x
+//
+]	a1 ,
+@rightPad ( )
+// trailing space 
+// " ++ [27880; 37322]%N ++ runes_of_ascii "
+match options1 as
+    string_
+{ 007 :uint8x  [
+""it's"", // c
+""\n"" ] : body } , zchar[ 1
+] float @lengthOf( Header) , @lengthOf( rootA )  @tag(
+    // packet A { u8 x, }
+    00 ) @lengthOf( metadata ) repeat
+    //x
+    metadata { int16
+    // " ++ [27880; 37322]%N ++ runes_of_ascii "
+    i64_
+    ,} ,
+i64_ , zchar[ 0123456789 ] lengthOf @calculatedFrom(""it's"" ) ,  } root
     packet
-Heartbeat	{ float32 tag7 ,repeat  InPrice50	{
+f32a { @leftPad
+    ( '0' ) @leftPad // " ++ [128512]%N ++ runes_of_ascii " emoji
+( '\x00' ) i64_`tab	here`
+,repeat x Packet ,char[ 42 ] Foo @calculatedFrom( ""abc"" ) , int16  uint8x @lengthOf( MetaDataX ) // @lengthOf(
+`a\`
+, // " ++ [27880; 37322]%N ++ runes_of_ascii "
+i8 Header `
+` /// triple
+, repeat//
+Pad
+    A , char[3  ] _x , @calculatedFrom(// trailing space 
+""x y"")
+match MetaDataX	as As {
+//	t
+//x
+[	""a	b"", """ ++ [28040; 24687]%N ++ runes_of_ascii """
+]
+:	options1, [""" ++ [28040; 24687]%N ++ runes_of_ascii """ ,
+""it's""
+    , 3
+    , 7
+,
+42 ,""abc""	] :	_x , """"
+    //	t
+    :
+charz ,
+""a\\"" :// trailing space 
+a1
+, //
+} , @tag( 7 ) u8 float ,
+    }
+")).
+Eval vm_compute in ("<<<M4452>>>" ++ check (runes_of_ascii "packet T {
+    x repeatCount `tab	here`,
+    repeat a1 `a\`,
+    a1 @calculatedFrom(""CRC32""),
+    repeat string msg_type `// not a comment`,// trailing space 
+}
 
-    repeat char[ 5 ]
+packet uint8x {
+    zchar[65535] roots,
+    i64_ stringy,
+    zchar[0123456789] tag `" ++ [28040; 24687; 31867; 22411]%N ++ runes_of_ascii "`,
+    @tag(42)
+    match i8i8 as Header {
+        [""// no comment"", ""abc"", 255, 65535] : charz,
+        00 : Z9_,
+    },
+    uint8 int @calculatedFrom(""`tick`""),
+    @lengthOf(asx)
+    match crc as trueish {
+        ["""", ""// no comment"", 42, ""packet""] : chars,
+        0 : x,
+        ""packet"" : crc,
+    },
+    @calculatedFrom(""{,}"")
+    repeatCount,
+    @tag(7)
+    BodyLength @calculatedFrom(""a	b""),
+    repeat u32 i64_,
+}
 
-    lastPx ,InRef42 {
-    u8
-
-pad0
-
-    , } ,
-    uint32
-
-    Acct,repeat	Logout ,repeat
-	char[  5]
-	Qty  ,}
-
+packet f32a {
+    @tag(42)
+    @tag(10)
+    string MetaDataX @calculatedFrom(""" ++ [28040; 24687]%N ++ runes_of_ascii """),
+    //	t
+    crc {
+        a1 @calculatedFrom(""a\\"") `crlf
+        line`,
+        repeat zchar[10] A,
+    },// " ++ [27880; 37322]%N ++ runes_of_ascii "
+    match Packet as Pad {
+        ""CRC32"" : msg_type,
+    },
+    repeat string A `doc`,
+}")).
+Eval vm_compute in ("<<<M1222>>>" ++ check (runes_of_ascii "//	t
+root packet Header{ @tag(
+255  )
+    float32 msg_type
+// @lengthOf(
+// packet A { u8 x, }
+@lengthOf(u8x	) `" ++ [28040; 24687; 31867; 22411]%N ++ runes_of_ascii "` ,
+    //x
+    @calculatedFrom( ""a	b"" )
+    repeat string i64_, repeat x_y_z {//x
+asx , string i8i8 @lengthOf( float ) ,uint16 // `tick` ""quote"" 'q'
+As// @lengthOf(
+@calculatedFrom( ""x y""
+    //
+    )	, }	,//
+@lengthOf( i8i8) msg_type { match
+tag as Z9_ {
+[1
+    // " ++ [27880; 37322]%N ++ runes_of_ascii "
+    , ""packet"" ] : Z9_ ,
+[4294967296	] : options1
+,""\n"" :
+Pad,
+} ,
+    match calculatedFrom as packetx
+{ 0123456789 /// triple
+:	metadata [ """ ++ [233]%N ++ runes_of_ascii "t" ++ [233]%N ++ runes_of_ascii """
+] :
+    T , 1
+    : i64_ , } , //	t
+match BodyLength as chars{ 0
+    : metadata
+,""" ++ [128512]%N ++ runes_of_ascii """
+: u128, ""a\""b"" :
+    calculatedFrom ,
+0
+: As, """ ++ [128512]%N ++ runes_of_ascii """ :x_y_z 7
+    :f32a,}//	t
+,u trueish
+    // " ++ [128512]%N ++ runes_of_ascii " emoji
     ,
-
-    repeat  InSeqno30
-
-    {  repeat 
-Logout
+} , } MetaData charz
+{i32 // " ++ [128512]%N ++ runes_of_ascii " emoji
+x `u8 x,`
 ,
+char[]
+calculatedFrom`two words`, int8
+// packet A { u8 x, }
+// trailing space 
+packetx `crlf
+line`	, } MetaData//	t
+charz {
+}
+")).
+Eval vm_compute in ("<<<M3957>>>" ++ check (runes_of_ascii "  packet 
+    // `tick` ""quote"" 'q'
+// `tick` ""quote"" 'q'
+rootA
+{
+@tag(
+3
 
-    } ,
-    @leftPad
-    (
-	'0'  )	char[
-    12
-] Acct ,	char[] Side2 ,
+    )
+zchar[
 
-    repeat
+    00]	// trailing space 
+x_y_z `" ++ [28040; 24687; 31867; 22411]%N ++ runes_of_ascii "` ,	_x , 
+// a // b
+      float64	A
 
-    string
-msgKind	,} packet
-    Ack
-	{
-	Heartbeat
-,
-	char[
-8
-
-    ]
-
-seqNo
-    , 
-float64  clOrdID
-,} packet	Trade
-	{
-
-    char[]
-    OrderId
-
-,
-    f64
-    Side2 , zchar[ 
-8]
-f1
-
-    ,
-    string	Qty ,
-float64
-    seqNo
-	,
-
-    repeat
-
-    Logout
-    ,}packet
-
-Order
-	{
-f32
-OrderId	,
-
-    repeat u8
-
-    x
-
-,
-Ack
+@lengthOf(//
+  u8x  ), u8 rootA
+    `line1
+line2` 
 ,
 zchar[
-7
-]
-	Note
-,
-}
-root	packet 
-Logon {	@rightPad
-(
-    '\x00'
-	)
 
-char[ 9
+    7 ]// c
+stringy
+
+    , match  Header as f32a 
+{
+	""\" ++ [233]%N ++ runes_of_ascii """ :
+	o	,[ 
+	// `tick` ""quote"" 'q'
+4294967296 ,7,	// c
+    	4294967296
+
+    , 
+""packet""
+	,
+	""a	b""	,
+    ""CRC32""
+, 7 ,
+	""a	b""  // trailing space 
 
 ] 
-f1,
-}")).
-Eval vm_compute in ("<<<M582>>>" ++ check (runes_of_ascii "root packet u128
-    {@lengthOf( chars ) repeat u128
-{ repeat	char[
-//	t
-// trailing space 
+:  // packet A { u8 x, }
+  repeatCount ,
+
+    ""a\""b""
+	: 
+Header [
+
+    ""a\""b""]	:crc
+	,[	007
+	,
 007
-// packet A { u8 x, }
-/// triple
-] falsey ,
-zchar[ 00 ]
-crc , uint8x @lengthOf(
-    Logon ) `" ++ [28040; 24687; 31867; 22411]%N ++ runes_of_ascii "`
-,	zchar[ 0123456789]lengthOf @lengthOf( f32a ),} , repeat/// triple
-char[42
-    ] float , int16 u
-/// triple
-// `tick` ""quote"" 'q'
-``
-    , @leftPad (
-)
-    zchar {
-    int8 f32a `u8 x,`,
-    } , @lengthOf(
-msg_type  )
-options1 { string roots@calculatedFrom(""" ++ [233]%N ++ runes_of_ascii "t" ++ [233]%N ++ runes_of_ascii """
-    ) `// not a comment` , }
-, Header Packet , @calculatedFrom( """ ++ [233]%N ++ runes_of_ascii "t" ++ [233]%N ++ runes_of_ascii """)  Z9_ { float {
-    char[]pack @calculatedFrom( ""a\""b"" )
-    `two words` , match Pad as body {
-0123456789 : body ,
-// " ++ [27880; 37322]%N ++ runes_of_ascii "
-// a // b
-[// packet A { u8 x, }
-""it's""	,""x y"" , """ ++ [128512]%N ++ runes_of_ascii """
-// @lengthOf(
-// @lengthOf(
-, 65535 ,""""
-]
-//	t
-// " ++ [128512]%N ++ runes_of_ascii " emoji
-: crc , ""abc""
-    //x
-    : msg_type, // @lengthOf(
-""" ++ [233]%N ++ runes_of_ascii "t" ++ [233]%N ++ runes_of_ascii """ :lengthOf , 3 : Logon ,
-    [  ""a\\"" ] : u128 ,
-// a // b
-/// triple
-} ,
-    } , MetaDataX{ rootA {repeat char[1
-] Pad , }, }
-    ,
-x  ,	}
-//	t
-// a // b
-, repeat// " ++ [128512]%N ++ runes_of_ascii " emoji
-chars , //	t
-u16 As ,}
-")).
-Eval vm_compute in ("<<<M641>>>" ++ check (runes_of_ascii "root
-    packet pack {
+,	""abc""
+]	:
+
+    metadata  ,4294967296 :
+
+    chars , } 	 // " ++ [128512]%N ++ runes_of_ascii " emoji
+	,
+
+    @tag( 1
+) i8  matchKey	`a\`
+
+, 
+  // @lengthOf(
+		// " ++ [128512]%N ++ runes_of_ascii " emoji
 @lengthOf(
-leftPad) match msg_type
-    as// a // b
-lengthOf
-    {
-""\n"" : a1,3
-:tag 0 : metadata
-,
-    } ,
-    tag @calculatedFrom( ""CRC32"" )
-    `doc`/// triple
-,
-    @rightPad // `tick` ""quote"" 'q'
-('\x00'
-//x
-// " ++ [27880; 37322]%N ++ runes_of_ascii "
-)zchar[ 255 ]asx// @lengthOf(
-`say ""hi""` ,@calculatedFrom( ""a	b"")
-    @calculatedFrom(""" ++ [233]%N ++ runes_of_ascii "t" ++ [233]%N ++ runes_of_ascii """)@calculatedFrom(""packet"" ) Pad { match
-    rootA  as float {
-    [00 , 007 , ""a\""b"" ,"""",	""a	b"" , ""packet""	]: stringy 0 // trailing space 
-: float  ""\" ++ [233]%N ++ runes_of_ascii """ : int	,} , i8i8 { Foo @calculatedFrom( """ ++ [128512]%N ++ runes_of_ascii """
-),
-string zchar `" ++ [28040; 24687; 31867; 22411]%N ++ runes_of_ascii "` , zchar[ 3
-    // " ++ [27880; 37322]%N ++ runes_of_ascii "
-    ] metadata `crlf
-line` ,
-match leftPad as // c
-f32a //	t
-{ 0
-: // " ++ [27880; 37322]%N ++ runes_of_ascii "
-pack, [ """",  ""packet""
-, 0	,42,""abc""
-,
-// c
-// trailing space 
-1 ,
-    ""{,}"" ]
-: uint8x
-} ,
-} ,char[ 00
-// c
-// trailing space 
-] trueish @calculatedFrom( """ ++ [128512]%N ++ runes_of_ascii """) // `tick` ""quote"" 'q'
-,// c
-} , }packet repeatCount{@tag( 4294967296
-    )  i8i8
-// " ++ [27880; 37322]%N ++ runes_of_ascii "
-//x
-f32a,@lengthOf(  len )
-i8i8 {As`
-` // " ++ [128512]%N ++ runes_of_ascii " emoji
-, },repeat
-f64 asx , }
-")).
-Eval vm_compute in ("<<<M1263>>>" ++ check (runes_of_ascii "root
-    packet  matchKey
-    { match uint8x as x_y_z { 1
-    : // @lengthOf(
-falsey // a // b
-, } ,}
-packet
-    // " ++ [27880; 37322]%N ++ runes_of_ascii "
-    MetaDataX  {
-    /// triple
-    float @calculatedFrom(""a\\"" ) `// not a comment`, repeat stringy {  match repeatCount as
-a1 {	[ ""// no comment"" ] : metadata , //	t
-[ 4294967296 ,""" ++ [233]%N ++ runes_of_ascii "t" ++ [233]%N ++ runes_of_ascii """ ] : len
-    [""a\\""
-    , 4294967296 ,""packet"" , """ ++ [233]%N ++ runes_of_ascii "t" ++ [233]%N ++ runes_of_ascii """ ,
-    10 , 0 // " ++ [27880; 37322]%N ++ runes_of_ascii "
-] :charz
-    , 00 :  i64_ , [
-7 ] :
-tag, 00
-//	t
-//	t
-: falsey }
-    , }
-    , roots @calculatedFrom( ""1"" ) `
-`
-    ,msg_type  @lengthOf(
-    stringy
-) `a\`  , int MetaDataX `doc` , @calculatedFrom( // trailing space 
-""" ++ [128512]%N ++ runes_of_ascii """ ) u64
-int `say ""hi""`
-    , }packet //x
-rootA{
-asx // c
-@lengthOf( Foo) `a\`, @leftPad(
-' ' )
-string// c
-Z9_
-,
-    crc
-    //x
+
+body  )
+tag
+
+, 
+@lengthOf(matchKey )
+@lengthOf(o
+
+    ) @lengthOf(pack
+
+    ) repeat
+	u {
+calculatedFrom
+
     @lengthOf(
-//	t
-// a // b
-leftPad
-)	`doc` ,  repeat calculatedFrom
-    // packet A { u8 x, }
-    u128`{ , }` , //x
-@calculatedFrom(
-""packet""
-) @calculatedFrom(""\" ++ [233]%N ++ runes_of_ascii """	)i16 roots `doc` , }")).
-Eval vm_compute in ("<<<M4420>>>" ++ check (runes_of_ascii "packet len {
-    repeat char[0] leftPad `{ , }`,
-    @calculatedFrom(""abc"")
-    zchar[65535] Z9_ @lengthOf(tag) `tab	here`,
-    match u128 as packetx {
-        [""it's"", ""\" ++ [233]%N ++ runes_of_ascii """] : o,
-        ""\n"" : int,
-        ""a\""b"" : As,
-        ""{,}"" : chars,
-        42 : T,
-        ""1"" : packetx,
-    },
-    x Pad,
-    int8 Pad `a\`,
-    chars a1,
-    char[0] Z9_ @calculatedFrom(""// no comment"") `" ++ [28040; 24687; 31867; 22411]%N ++ runes_of_ascii "`,
-}
 
-packet x_y_z {
-    repeat stringy x_y_z,
-}
+falsey)
+	,  }
 
-root packet charz {
-}// " ++ [128512]%N ++ runes_of_ascii " emoji
+,
 
-root packet x {
-    _x msg_type,
-    @tag(0123456789)
-    i64 body `two words`,
-    @rightPad('\x00')
-    @lengthOf(charz)
-    //x
-    // @lengthOf(
-    zchar[0123456789] stringy,
-    repeat Packet stringy,
-    repeat A `tab	here`,
-    @tag(0)
-    match asx as Pad {
-        [
-            3, 1, 1, """ ++ [233]%N ++ runes_of_ascii "t" ++ [233]%N ++ runes_of_ascii """, ""\n"",
-            """"
-        ] : Packet,
-        42 : roots,
-    },
+} ")).
+Eval vm_compute in ("<<<M3652>>>" ++ check (runes_of_ascii "MetaData As {
+    roots repeatCount,
+    char trueish,
+    zchar[255] u128 `crlf
+        line`,
+    char[] int,
+    asx u128 `say ""hi""`,
+    i32 packetx,
 }
 
 options {
-    float = true;
-}/// triple")).
-Eval vm_compute in ("<<<M1175>>>" ++ check (runes_of_ascii "// a // b
-root packet
-    // trailing space 
-    charz { @tag(007 ) repeat u32
-    chars, Packet
-`doc`
-    , } MetaData rootA // `tick` ""quote"" 'q'
-{  char[ 42 ]Packet
-    `crlf
-line` , }// c
-packet asx
-{repeat  calculatedFrom{
-asx @lengthOf(	chars
-    )  ,repeat string //	t
-x_y_z `line1
-line2`
-, repeat u32  i64_ //	t
-`it's` ,A
-    //x
-    @lengthOf(
-Logon ) `tab	here` , }
-    ,
-uint32
-asx // c
-@lengthOf(
-BodyLength) ,
-// " ++ [27880; 37322]%N ++ runes_of_ascii "
-// " ++ [27880; 37322]%N ++ runes_of_ascii "
-char[ 0123456789 ] calculatedFrom ,repeat Z9_,
-match
-    asx //	t
-as uint8x {// c
-[ ""{,}"",
-    // `tick` ""quote"" 'q'
-    ""it's""
-    , 7 ,""CRC32""
-] :
-msg_type
-    ,
-    [
+    A = false;
+    packetx = char[0]
+    A = true
+    crc = 1;
+    calculatedFrom = """ ++ [233]%N ++ runes_of_ascii "t" ++ [233]%N ++ runes_of_ascii """
+}
+
+MetaData i8i8 {
+}
+
+packet len {
+    @tag(00)
     // packet A { u8 x, }
-    1	]// " ++ [128512]%N ++ runes_of_ascii " emoji
-: u8x ""CRC32""
-:  T, }
-    // @lengthOf(
-    ,
-i8
-    charz	@calculatedFrom(
-    ""x y""
-)
-    // `tick` ""quote"" 'q'
-    `" ++ [233]%N ++ runes_of_ascii "` ,
-    }MetaData u8x
-{
-    // " ++ [128512]%N ++ runes_of_ascii " emoji
-    i8 T , }
-")).
-Eval vm_compute in ("<<<M3519>>>" ++ check (runes_of_ascii "options {
-    LittleEndian = true;
-    StringPrefixLenType = u64;
-    ArrayPrefixLenType = u8;
-    FixedStringPadChar = '0';
+    uint64 stringy @lengthOf(x_y_z),
 }
-packet Reject {
-    i32 Ref,
-    repeat f64 OrderId,
-    repeat InNote12 {
-        u8 pad0,
+
+packet rootA {
+    // trailing space 
+    @lengthOf(zchar)
+    char _x @lengthOf(x_y_z),//	t
+    string_ @calculatedFrom(""" ++ [233]%N ++ runes_of_ascii "t" ++ [233]%N ++ runes_of_ascii """),// " ++ [128512]%N ++ runes_of_ascii " emoji
+    @lengthOf(A)
+    x_y_z {
+        Pad,
+        match trueish as u8x {
+            4294967296 : u,
+            3 : int,
+            00 : u8x,
+            [
+                ""{,}"", ""a	b"", 0, 3, 0123456789,
+                ""a\""b""
+            ] : body,
+            65535 : T,
+        },
     },
-    @leftPad(' ') char[6] count,
-}
-packet Logout {
-    zchar[6] Tail,
-    repeat string venue,
-}
-packet Cancel {
-    u64 count,
-    repeat char[5] lastPx,
-    i64 Tail,
-    repeat InF140 {
-        repeat Logout,
-        repeat Reject,
-    },
-}
-root packet Trade {
-    repeat InMsgkind39 {
-        repeat Reject,
-        char[4] Px,
-    },
-    string Acct,
-    uint16 price,
-    f32 OrderId,
-    u16 x,
-    u16 clOrdID @lengthOf(Body),
-    match x as Body {
-        178 : Logout,
-        13 : Cancel,
-        174 : Reject,
-    },
-    u16 Flags @calculatedFrom(""CR\
-C32""),
-}
-")).
-Eval vm_compute in ("<<<M900>>>" ++ check (runes_of_ascii "// " ++ [128512]%N ++ runes_of_ascii " emoji
-MetaData int {	As
-options1 ,
-char[
-    // a // b
-    42]  a1, int32 Foo
-`// not a comment`, int32// trailing space 
-float
-    , zchar[4294967296] uint8x
-// c
-// `tick` ""quote"" 'q'
-`// not a comment` ,	char[] Pad ,  }  root packet
-MetaDataX { @tag( 1
-    ) u128 { repeatCount	Packet
-    , } , A
-    , @lengthOf(u128 ) @leftPad
-    ( )@leftPad ( '\x00' )repeat i16
-    uint8x `u8 x,` ,
-int16
-float @calculatedFrom( ""abc""
-) `" ++ [28040; 24687; 31867; 22411]%N ++ runes_of_ascii "`// packet A { u8 x, }
-, body @lengthOf( _x )  , @leftPad	( '0')
-    //x
-    match roots
-as Header // `tick` ""quote"" 'q'
-{""{,}""
-:Packet , 0123456789
-:
-pack  00 : matchKey[ """ ++ [28040; 24687]%N ++ runes_of_ascii """
-    ,
-4294967296  ] : string_
-    ,
-    } , }  packet
-    charz{// trailing space 
-char[ 00
-    ]u8x , i32 chars ,
-}
-packet matchKey
-    { }")).
-Eval vm_compute in ("<<<M157>>>" ++ check (runes_of_ascii "packet Packet { zchar[ /// triple
-00] u
-@lengthOf(tag
-    ),	repeat // " ++ [128512]%N ++ runes_of_ascii " emoji
-string u8x `u8 x,`
-    , packetx { repeat uint8 leftPad `doc` ,
-}	,// " ++ [27880; 37322]%N ++ runes_of_ascii "
-@tag(	0123456789
-)char[] chars@lengthOf(rootA
-// trailing space 
-// c
-) `{ , }` , uint8 Packet ,
-repeat a1 `two words`
-//
-//
-,@calculatedFrom(
-    //	t
-    ""it's"") string_ {u16 A
-// packet A { u8 x, }
-// a // b
-`crlf
-line` , repeat
-string // " ++ [27880; 37322]%N ++ runes_of_ascii "
-uint8x
-    , string u128 ,
-    } , }	packet MetaDataX{
-    //x
-    @tag( 0123456789 ) char[ // packet A { u8 x, }
-3
-    ] Packet , } MetaData
-    repeatCount {  } root packet  u8x
-    // `tick` ""quote"" 'q'
-    { x_y_z// " ++ [27880; 37322]%N ++ runes_of_ascii "
-@lengthOf(
-    // a // b
-    o ) `two words` , // " ++ [27880; 37322]%N ++ runes_of_ascii "
-repeat zchar[ 0123456789
-] len `" ++ [233]%N ++ runes_of_ascii "` , }
-//
-")).
-Eval vm_compute in ("<<<M3814>>>" ++ check (runes_of_ascii "// " ++ [27880; 37322]%N ++ runes_of_ascii "
-
-packet
-leftPad{	// a // b
-      string
-As`{ , }`	,char[
-	42 
-] 
-msg_type
-
-    ,
-@lengthOf(
-i8i8
-
-)match
-	Foo
-    as
-
-matchKey//	t
-
-{ 
-1: chars
-    ,65535:
-	o
-    7
-    :calculatedFrom 
-,[	65535
-    , 7
-, ""a	b"" ]
-	:int 
-,[
-
-00
-,
-0 , ""x y""
-
-,
-65535 //	t
-    ,	""" ++ [128512]%N ++ runes_of_ascii """	,
-	007
-,  ""it's"", """"]
-:
-
-Packet ,
-""""
-: float ,
-} , 
-u64
-    Logon	@calculatedFrom(
-	""" ++ [128512]%N ++ runes_of_ascii """ ) ,@calculatedFrom(  ""a	b""
-    ) pack	{ 
-float32
-	charz 
-`line1
-line2` 	 // `tick` ""quote"" 'q'
-	, 
-}
-
-    , }MetaData
-	u128 {
-repeatCount
-len`" ++ [233]%N ++ runes_of_ascii "`  ,	BodyLength 	 //x
-charz
-,u8x  trueish`a\`
-,  Header 
-msg_type`line1
-line2`  ,  string
-
-    stringy
-
-    , // " ++ [128512]%N ++ runes_of_ascii " emoji
-	char[]
-	u128
-    `" ++ [233]%N ++ runes_of_ascii "`
-    , }
-    options {
+    i32 chars,
 }")).
-Eval vm_compute in ("<<<M1276>>>" ++ check (runes_of_ascii "packet
-As{
-@lengthOf(
-    chars
-)@leftPad( ' ' )	string
-    leftPad @lengthOf(
-    _x ) , @tag( // " ++ [128512]%N ++ runes_of_ascii " emoji
-00
-    /// triple
-    ) match// " ++ [128512]%N ++ runes_of_ascii " emoji
-A as
-    falsey { // `tick` ""quote"" 'q'
-0:
-i64_ ,
-[ ""x y"", ""a\""b"" , ""it's"" ,""x y""  ,
-007 , ""a	b"" ]// `tick` ""quote"" 'q'
-:roots 65535://x
-stringy , }
-,  zchar[4294967296]
-string_ `it's` , int16 Logon `it's` , @calculatedFrom(""" ++ [233]%N ++ runes_of_ascii "t" ++ [233]%N ++ runes_of_ascii """ )repeat char[]// " ++ [27880; 37322]%N ++ runes_of_ascii "
-stringy `a\` ,repeat
-char[3	] crc , @lengthOf( msg_type )  x { u8x  int`two words` ,
-    i8i8 _x // packet A { u8 x, }
-`
-`
-, int8	Logon@lengthOf(
-    Pad) ,} ,@tag(1 )	i64	string_@calculatedFrom( ""\" ++ [233]%N ++ runes_of_ascii """ ) , // packet A { u8 x, }
-char[]
-    Foo  ,  }
-")).
-Eval vm_compute in ("<<<M3984>>>" ++ check (runes_of_ascii "options
-
-{
-    zchar =
-
-    false ;  Packet
-=	""`tick`""  ; a1 =  
-      // c
-    	char[]  ;
-    Packet
-
-    =
-
-0123456789
-
-;
-	}packet
-msg_type
-{ 	 /// triple
-      @lengthOf( 
-u128
-
-    )body
-@lengthOf( 
-len 
-) ,
-
+Eval vm_compute in ("<<<M1071>>>" ++ check (runes_of_ascii "packet BodyLength {@calculatedFrom( ""1""
+)@tag( 10
+)
+    @lengthOf(
+Pad
+) char[0123456789  ] asx `" ++ [233]%N ++ runes_of_ascii "`
+    ,	char[]	msg_type
     @calculatedFrom(
-""CRC32"" )zchar[
-        /// triple
-007 
-]  // packet A { u8 x, }
-repeatCount 
-@lengthOf(Foo )`it's`
-    ,
-    i16
-
-    leftPad@calculatedFrom(  ""a\\"")	`u8 x,`
-    , 
-    /// triple
-float , 
-@lengthOf(  a1) As@lengthOf(	rootA) 
-`doc` // @lengthOf(
-    , // " ++ [128512]%N ++ runes_of_ascii " emoji
-f32
-o@calculatedFrom( ""a	b"" ) `tab	here` 
-, }	options
-// @lengthOf(
-    // " ++ [27880; 37322]%N ++ runes_of_ascii "
-{ } options
-{
-
-    }
-")).
-Eval vm_compute in ("<<<M3661>>>" ++ check (runes_of_ascii "root packet Pad {
-    @lengthOf(_x)
-    As i8i8,
-    f32 lengthOf `a\`,
-    // " ++ [27880; 37322]%N ++ runes_of_ascii "
-    repeat len `tab	here`,
-    zchar[3] body,
-    int8 matchKey `crlf
-    line`,
-}
-
-MetaData metadata {
-    matchKey packetx,
+""""	) , @tag(
+4294967296 )repeat a1 {char[ 007
+// c
+//x
+]
+Logon
+`crlf
+line`,
+    // a // b
+    u32
+    trueish `u8 x,` ,
+match	Z9_	as body {
+""1"" :	Packet, 0 :
+x, } ,int16 options1 `" ++ [233]%N ++ runes_of_ascii "`
+, }
+    , }options
+{ rootA = true ; // @lengthOf(
+uint8x =
+' ' matchKey
+= char[]
+    ; stringy = ' '  options1 = 4294967296 } options {stringy = true
+chars =
+    ' ' }packet T { string Pad @calculatedFrom( ""\" ++ [233]%N ++ runes_of_ascii """
+    ) , //	t
+repeat
+MetaDataX{repeat
+    u32 // `tick` ""quote"" 'q'
+body `line1
+line2` ,string crc
+@lengthOf(
+// trailing space 
+// " ++ [27880; 37322]%N ++ runes_of_ascii "
+As
+) `" ++ [28040; 24687; 31867; 22411]%N ++ runes_of_ascii "`
+    , } , /// triple
+repeat
+// c
+// trailing space 
+float32 Header
+    `a\` , float`a\`  , }")).
+Eval vm_compute in ("<<<M4170>>>" ++ check (runes_of_ascii "options {
+    len = int8/// triple
+    Header = '0';
 }
 
 packet options1 {
-    repeat charz `line1
-    line2`,
-    int8 options1,
-    repeat roots {
-        repeat float32 x_y_z `say ""hi""`,
-    },
-    int64 options1 `line1
-    line2`,
-    match falsey as falsey {
-        [""// no comment"", """"] : _x,
-        42 : crc,
-        ""packet"" : repeatCount,
-        """ ++ [128512]%N ++ runes_of_ascii """ : u8x,
-        ""abc"" : falsey,
-    },
-    repeat float64 x_y_z `a\`,
-}")).
-Eval vm_compute in ("<<<M20>>>" ++ check (runes_of_ascii "// " ++ [128512]%N ++ runes_of_ascii " emoji
-MetaData o
-    { } packet uint8x { uint8
-    // c
-    u128  @lengthOf(
-body  )  `// not a comment` , @calculatedFrom( ""1"" ) options1{
-    repeat Foo crc , zchar[ 255] MetaDataX
-    /// triple
-    @calculatedFrom( ""\" ++ [233]%N ++ runes_of_ascii """ ) , Foo { char[ 1 ] msg_type ,
-    } ,
-    },
-float64
-    falsey @lengthOf(
-f32a )
-,
-    match
-// packet A { u8 x, }
-//
-BodyLength
-    as f32a
-{ """ ++ [128512]%N ++ runes_of_ascii """
-: x_y_z ,	""" ++ [128512]%N ++ runes_of_ascii """ :
-    BodyLength ,""" ++ [28040; 24687]%N ++ runes_of_ascii """ : Foo
-,
-    } , @lengthOf( lengthOf ) repeat len , // " ++ [128512]%N ++ runes_of_ascii " emoji
-crc float`line1
-line2`
-    , }MetaData repeatCount {
-tag x, //	t
-}
-")).
-Eval vm_compute in ("<<<M1216>>>" ++ check (runes_of_ascii "// c
-options {} packet // `tick` ""quote"" 'q'
-msg_type
-    {
-    T @calculatedFrom( ""it's"" ) , @tag( 00
-    //
-    )  match rootA
-    as
-// a // b
-// `tick` ""quote"" 'q'
-charz{ 255 : roots [ ""1"", 7
-    , 00 ] : x }
-    , zchar[  007
-    // c
-    ]  u @calculatedFrom(
-// trailing space 
-//x
-""" ++ [28040; 24687]%N ++ runes_of_ascii """)  ,	match repeatCount as Pad
-    {[ /// triple
-""packet""
-, 1 ,4294967296,""1"" , ""x y""
-    , 42 ] :
-metadata ,
-    [	3 ,65535 ,
-    """",
-007, """ ++ [233]%N ++ runes_of_ascii "t" ++ [233]%N ++ runes_of_ascii """ ,
-    """ ++ [28040; 24687]%N ++ runes_of_ascii """, // c
-""CRC32""
-    // " ++ [128512]%N ++ runes_of_ascii " emoji
-    ]
-    :
-    pack
-""\" ++ [233]%N ++ runes_of_ascii """
-: Packet }, }
-
-")).
-Eval vm_compute in ("<<<M675>>>" ++ check (runes_of_ascii "packet charz{
-@rightPad
-    // a // b
-    (
-// trailing space 
-//x
-'0'
-)  repeat float32 options1 , @tag(
-00
-) zchar[007
-    // a // b
-    ]
-lengthOf , @calculatedFrom(
-"""" )
-    i8 MetaDataX
-, repeat
-char[] string_ ,// packet A { u8 x, }
-match u	as
-// a // b
-// `tick` ""quote"" 'q'
-string_ {
-    [ ""\n"" , 0123456789
-,	""it's"" , 0123456789,3
-    , ""a\""b"" ]
-    : packetx,""" ++ [28040; 24687]%N ++ runes_of_ascii """ : _x ,""a\""b""// " ++ [128512]%N ++ runes_of_ascii " emoji
-: // " ++ [128512]%N ++ runes_of_ascii " emoji
-roots 65535 :crc , },@tag( 7
-)
-uint8x
-u8x
-    // " ++ [27880; 37322]%N ++ runes_of_ascii "
-    ,
-Logon charz  `{ , }` , }
-")).
-Eval vm_compute in ("<<<M3741>>>" ++ check (runes_of_ascii "
-options
-    // packet A { u8 x, }
-  	// @lengthOf(
-  { asx
-
-    // " ++ [128512]%N ++ runes_of_ascii " emoji
-
-	=	// trailing space 
-	true
-    u128  //x
-
-= ""// no comment""len =
-    ' '  ;
-crc  = ""1""
-; f32a  =
-
-    zchar[
-//
-  255
-
-];	}  packet falsey
-	{@calculatedFrom(	""{,}""
-)
-	@lengthOf(
-    f32a
-) repeat int64
-i8i8
-
-    `two words` 
-,
-    //
-float64
-
-    Z9_ 
-@lengthOf(  A 
-)
-
-    `" ++ [28040; 24687; 31867; 22411]%N ++ runes_of_ascii "`
-, match
-	int as
-calculatedFrom
-	{ 	 // trailing space 
-    10
-
-    : T//	t
-    , }
-, 
-} //	t
-")).
-Eval vm_compute in ("<<<M1176>>>" ++ check (runes_of_ascii "
-MetaData
-roots	{	char[
-42 ] // @lengthOf(
-packetx`u8 x,`
-    ,	}
-    MetaData
-len { u128 rootA`
-`
-    ,
-roots
-trueish `doc`
-// a // b
-// `tick` ""quote"" 'q'
-,// trailing space 
-uint64 x_y_z
-    , u32 string_ , options1 int, i8 charz `it's`,
-// " ++ [128512]%N ++ runes_of_ascii " emoji
-//
-} MetaData int {
-// trailing space 
-// " ++ [27880; 37322]%N ++ runes_of_ascii "
-}
-    packet len
-{  @calculatedFrom(
-""a\\"")
-string Header
-`doc` , }packet o
-{ @leftPad
-    // c
-    (' ' ) char[] // c
-crc@calculatedFrom(""{,}"" )	, }
-")).
-Eval vm_compute in ("<<<M3679>>>" ++ check (runes_of_ascii "MetaData lengthOf {
-    zchar[4294967296] Pad,
-    As trueish `" ++ [28040; 24687; 31867; 22411]%N ++ runes_of_ascii "`,
-    u32 calculatedFrom `it's`,
-    zchar[255] packetx,
-    string asx,
-    int16 string_ ``,
+    @calculatedFrom(""{,}"")
+    repeat body,
 }
 
-packet Header {
-    @calculatedFrom(""" ++ [233]%N ++ runes_of_ascii "t" ++ [233]%N ++ runes_of_ascii """)
-    uint8 lengthOf,
-    string int @calculatedFrom(""x y"") `" ++ [28040; 24687; 31867; 22411]%N ++ runes_of_ascii "`,
-    match stringy as tag {
-        [10] : trueish,
-        //x
-        10 : int,
-        // @lengthOf(
-        ""abc"" : o,
+packet uint8x {
+    repeat int8 f32a,
+}
+
+packet As {
+    match u128 as o {
+        0 : len,
+        // c
     },
+    @calculatedFrom("""")
+    zchar As,
+    zchar[00] u8x,
+    @lengthOf(u8x)
+    match stringy as o {
+        [""1"", ""\" ++ [233]%N ++ runes_of_ascii """] : repeatCount,
+        [
+            7, 3, ""1"", 007, ""\n"",
+            0
+        ] : metadata,
+        //	t
+        ""it's"" : o,
+        00 : roots,
+        4294967296 : uint8x,
+    },
+    @calculatedFrom(""it's"")
     @tag(3)
-    zchar[255] i64_,
-}")).
-Eval vm_compute in ("<<<M639>>>" ++ check (runes_of_ascii "options { A = 4294967296 body =0 tag = ""// no comment"";Packet =00
-    ;  }root packet leftPad { } root
-packet rootA { repeat
-charz {repeatCount{
-    a1 {repeat uint32 stringy	`` , } ,
-    /// triple
-    zchar[ 65535
-    // `tick` ""quote"" 'q'
-    ] tag
-, i64_/// triple
-metadata
-    ,
-a1 // " ++ [27880; 37322]%N ++ runes_of_ascii "
-{repeat zchar[	3
-    ]
-    Foo `two words` ,},
-    } // `tick` ""quote"" 'q'
-, string
-a1  @lengthOf( float )
-, }
-,
-    //x
-    }")).
-Eval vm_compute in ("<<<M4227>>>" ++ check (runes_of_ascii "options 
-{ A 
-= ' '
-_x=
-'\x00' 	 /// triple
-  string_=
-    ""it's""
-	;
-        // trailing space 
-	// @lengthOf(
-  }
-
-    options
-	{
-    u8x	//
-      =""it's""
-	;lengthOf=
-true ;}	packet  matchKey
-
-{ 
-    // trailing space 
-    char[
-65535
-
-]	charz	, 
-
-// " ++ [128512]%N ++ runes_of_ascii " emoji
-  //x
-uint8x
-
-    ,@leftPad
-    // a // b
-
-( 
-'\x00')
-repeat tag
-    Pad
-
-,i32
-
-    i8i8 @lengthOf( MetaDataX )	/// triple
-	  ,
-    }")).
-Eval vm_compute in ("<<<M4170>>>" ++ check (runes_of_ascii "
-
-  options
-    { body	// " ++ [27880; 37322]%N ++ runes_of_ascii "
-
-  = 
-0123456789
-	} packet
-tag
-{ 
-o	@lengthOf(
-packetx
-	)
-
-`" ++ [28040; 24687; 31867; 22411]%N ++ runes_of_ascii "`	,
-
-repeat options1
-
-    {float64  o `doc`  ,} , 
+    int @lengthOf(int),
+    char[] asx @calculatedFrom(""a\""b"") `a\`,
+    int16 charz,
+    //	t
+    string x_y_z @lengthOf(int) `a\`,
+    i64 o,
 }
-root  packet	float
-{
-	// trailing space 
+
+root packet zchar {
+}")).
+Eval vm_compute in ("<<<M3536>>>" ++ check (runes_of_ascii "options {
+    StringPrefixLenType = u16;
+    ArrayPrefixLenType = u32;
+    FixedStringPadFromLeft = false;
+    FixedStringPadChar = '0';
+}
+packet Logout {
+    f64 f1,
+    i16 Note,
+    @rightPad('\x00') char[11] Flags,
+}
+packet Cancel {
+    float64 msgKind,
+}
+packet Reject {
+    InQty43 {
+        float32 sym,
+        char[10] Tail,
+        uint8 venue,
+        uint16 f1,
+        char[9] Acct,
+    },
+}
+packet Trade {
+    char[] x,
+    zchar[6] Note,
+    repeat Reject,
+}
+root packet Order {
+    Cancel,
+    Logout,
+    u64 Acct,
+    u32 OrderId,
+    match OrderId as Body {
+        [127, 70] : Reject,
+        177 : Trade,
+        58 : Logout,
+        75 : Cancel,
+    },
+    u32 Tail @calculatedFrom(""CRC32""),
+}
+")).
+Eval vm_compute in ("<<<M803>>>" ++ check (runes_of_ascii "packet int { Packet{ match x  as asx	{	""" ++ [233]%N ++ runes_of_ascii "t" ++ [233]%N ++ runes_of_ascii """:
+    //	t
+    i64_
+1 : /// triple
+o 255
+    : MetaDataX// packet A { u8 x, }
+""\n""
+    : chars ,
+}// packet A { u8 x, }
+, } , pack rootA
+    ,
+zchar[
+// a // b
+// " ++ [27880; 37322]%N ++ runes_of_ascii "
+1
+] T ,
+    } packet u{
+    zchar `tab	here` , zchar[ 255
+    ]metadata ,repeat _x{// " ++ [128512]%N ++ runes_of_ascii " emoji
+zchar
+{ f32a repeatCount
+// packet A { u8 x, }
+// packet A { u8 x, }
+`it's` //
+,  }
+,
+} ,// @lengthOf(
+@leftPad // packet A { u8 x, }
+(  ' ' )  x_y_z	@calculatedFrom( // `tick` ""quote"" 'q'
+""{,}"" ) `{ , }`
+    , repeat
+A a1 `u8 x,`, Foo @calculatedFrom( ""{,}""),}packet Pad {
+@tag( 7 ) @lengthOf( // c
+stringy ) @calculatedFrom(""" ++ [28040; 24687]%N ++ runes_of_ascii """  ) repeat
+    stringy ,
+char
+crc,
+    }
+")).
+Eval vm_compute in ("<<<M42>>>" ++ check (runes_of_ascii "packet Header { @lengthOf( BodyLength)string body	@lengthOf(	zchar	)  `two words` , @lengthOf( rootA )i32 metadata `it's` ,
+    @tag( 00 ) // trailing space 
+msg_type@lengthOf( // " ++ [27880; 37322]%N ++ runes_of_ascii "
+As )  ,
+int { repeat string
+//
+//	t
+u128 `" ++ [233]%N ++ runes_of_ascii "`,
+    match MetaDataX as packetx {[ 1	,0] : MetaDataX
+    , ""{,}"" :calculatedFrom ,} ,
+    // trailing space 
+    match asx as Logon  {
+7 :uint8x  , 00 : x_y_z
+,
+    ""\" ++ [233]%N ++ runes_of_ascii """
+    : o ,""" ++ [233]%N ++ runes_of_ascii "t" ++ [233]%N ++ runes_of_ascii """
+:chars /// triple
+, } , body
+// `tick` ""quote"" 'q'
+// a // b
+i64_ `crlf
+line` , },	a1
+    `line1
+line2`  ,
+// `tick` ""quote"" 'q'
+// a // b
+chars `// not a comment`	,@tag( 7
+    )
+leftPad charz	, int64 a1 @calculatedFrom(
+""\n""
+)  ,
+}")).
+Eval vm_compute in ("<<<M835>>>" ++ check (runes_of_ascii "root packet
+x{
+    // trailing space 
+    @lengthOf(
+u)// " ++ [27880; 37322]%N ++ runes_of_ascii "
+@tag( 00 )
+    @calculatedFrom(
+""x y""// @lengthOf(
+) float64 stringy@calculatedFrom(
+"""" ) ,  @leftPad( '0'
+) Pad @lengthOf( i8i8
+    )
+,
+    match metadata
+    as crc //	t
+{ ""abc""
+    : calculatedFrom ,// @lengthOf(
+[1
+, 3 ,	"""" , ""a	b"" ,
+007
+,""a\""b"",
+    42
+, ""it's"" ]
+: msg_type , 4294967296// @lengthOf(
+:
+repeatCount
+,[ 0 ] : T	, 4294967296:
+f32a ,	42 :
+u
+    , } ,
+    @leftPad(' ' ) uint64 A	@calculatedFrom(""`tick`"" ) , match
+// c
+//
+roots as Packet { ""packet"" :
+    uint8x//
+, 0
+: Packet},  } options
+{  int = ""CRC32"" charz= ""CRC32""
+Foo = true
+    ; } 	 ")).
+Eval vm_compute in ("<<<M868>>>" ++ check (runes_of_ascii "packet Z9_
+{ } root packet u  {
+@lengthOf( int ) f64	tag
+`" ++ [28040; 24687; 31867; 22411]%N ++ runes_of_ascii "`	,
+    @calculatedFrom(
+// c
+/// triple
+""CRC32""
+    ) calculatedFrom
+// @lengthOf(
+/// triple
+@lengthOf(//
+a1
+    )`two words` , @rightPad (	'\x00'//	t
+) @rightPad(
+) @calculatedFrom(""it's"" ) string int
+/// triple
+// `tick` ""quote"" 'q'
 @calculatedFrom(
+    ""\n"" )`// not a comment`, repeat	f32a { string_
+    @calculatedFrom( ""abc"" ) `" ++ [28040; 24687; 31867; 22411]%N ++ runes_of_ascii "` , zchar[65535 ] metadata
+, match i8i8
+    as
+len	{""// no comment"":
+repeatCount
+,	[
+    ""{,}""
+// c
+//x
+, 65535] : Header
+,} ,  } ,
+}packet int {
+repeat int32 pack `tab	here` , }
+")).
+Eval vm_compute in ("<<<M293>>>" ++ check (runes_of_ascii "root packet zchar { @rightPad (  ) repeat
+uint32 Pad  ,
+// a // b
+// c
+char[ 4294967296 ] f32a @calculatedFrom( """" )
+`u8 x,`
+, uint16 BodyLength @lengthOf( packetx)
+`it's`  , @calculatedFrom( ""a\\"" ) string falsey // c
+`a\`
+    , matchKey Packet`it's` , match trueish as matchKey
+{ ""\n"" : trueish [ ""\n"" ,
+3]
+    : len , [ 10  ] : Logon // `tick` ""quote"" 'q'
+0123456789
+: packetx ,  ""it's"" :
+Pad , 42
+// @lengthOf(
+// a // b
+:
+    falsey , } ,
+match metadata
+    as rootA { """ ++ [128512]%N ++ runes_of_ascii """ : Header ,
+255 : T ,0123456789 : tag
+    , ""x y""
+: MetaDataX ,} ,}")).
+Eval vm_compute in ("<<<M3821>>>" ++ check (runes_of_ascii "
+packet trueish { @tag( 
+007
+)len
+	{ string
+	float
 
-""a	b"" )  //	t
-      float32
-BodyLength 	 // " ++ [128512]%N ++ runes_of_ascii " emoji
-      `crlf
-line`  ,
+    ,
+    // packet A { u8 x, }
+  repeat 
+    // c
+	//	t
 
-    repeat 	 // " ++ [128512]%N ++ runes_of_ascii " emoji
-f32a	Header  `say ""hi""`, int8
+	Z9_
+`tab	here` 
+,	f32	A @calculatedFrom( ""CRC32"" ) 
+, } ,match
+    BodyLength	// " ++ [27880; 37322]%N ++ runes_of_ascii "
+		as// `tick` ""quote"" 'q'
+  int  { 1 
+:
+msg_type
+,	""" ++ [128512]%N ++ runes_of_ascii """	// @lengthOf(
+  :falsey
+    // a // b
+  ,
+	// " ++ [128512]%N ++ runes_of_ascii " emoji
 
-falsey// `tick` ""quote"" 'q'
-  `{ , }` ,} ")).
+  /// triple
+  ""// no comment""  /// triple
+:x_y_z// @lengthOf(
+}
+,  repeat // @lengthOf(
+  i32
+rootA	`doc`
+,
+
+}
+
+packet asx
+
+    {	}options	// `tick` ""quote"" 'q'
+    {
+
+    T
+
+    =
+""a	b""
+    }")).
+Eval vm_compute in ("<<<M815>>>" ++ check (runes_of_ascii "root packet o { options1 repeatCount,
+zchar[ 0 ]_x , @tag( 4294967296
+) char[]
+    options1`doc`
+    , i64_ , u16 len`two words`	,	match
+pack as u{ 10 :
+a1
+,} ,
+@calculatedFrom( ""abc""
+) repeat int int
+`// not a comment`,repeat chars	{
+    lengthOf tag `" ++ [233]%N ++ runes_of_ascii "` , repeat x { repeat uint8 matchKey ``
+, //x
+string// trailing space 
+roots //	t
+`two words`	,int64 len @lengthOf(  Header ) ,}
+,repeat char[]
+// `tick` ""quote"" 'q'
+// " ++ [128512]%N ++ runes_of_ascii " emoji
+Z9_
+`tab	here`	,
+}
+    ,
+// `tick` ""quote"" 'q'
+// c
+} //x")).
+Eval vm_compute in ("<<<M350>>>" ++ check (runes_of_ascii "packet uint8x{ string_	{ repeat zchar
+    {
+// `tick` ""quote"" 'q'
+//x
+match u128
+as A{42 : pack
+    , }, // " ++ [27880; 37322]%N ++ runes_of_ascii "
+int64  u128	, repeatCount `it's` // trailing space 
+, string asx
+//	t
+//	t
+@calculatedFrom( ""a\""b"" ) , }
+    ,
+matchKey
+@calculatedFrom( ""1"" ) , } ,
+match o as
+Z9_
+{
+    // a // b
+    [ 7	] : uint8x ,
+[ 00 // `tick` ""quote"" 'q'
+,// " ++ [128512]%N ++ runes_of_ascii " emoji
+""" ++ [233]%N ++ runes_of_ascii "t" ++ [233]%N ++ runes_of_ascii """  , ""\" ++ [233]%N ++ runes_of_ascii """// trailing space 
+]  : Packet ,// a // b
+} ,f32
+A, }root
+    packet Foo{	repeat	float32	msg_type , }
+")).
+Eval vm_compute in ("<<<M3509>>>" ++ check (runes_of_ascii "
+options
+{
+    LittleEndian 
+= false
+; StringPrefixLenType
+=
+
+    u32
+;
+    ArrayPrefixLenType=
+	u16
+    ;
+
+    } packet
+	Party
+	{@leftPad
+(
+
+'0' )  char[	12 
+]
+
+    Ref
+
+,	repeat
+    char[
+
+    6
+	]	x
+, }
+packet
+    Logon {
+
+    uint32 clOrdID, Party, }
+
+    root
+
+    packet
+Ack {
+zchar[2
+
+]  f1 
+,	u32 
+seqNo
+
+    ,
+
+    u32
+
+    Side2
+	@lengthOf( 
+Body
+
+), 
+match
+seqNo 
+as  Body {
+43
+:
+
+    Logon , 93: 
+Party
+,} ,
+}
+
+")).
+Eval vm_compute in ("<<<M808>>>" ++ check (runes_of_ascii "packet
+    x
+{
+} MetaData calculatedFrom { } MetaData x_y_z{
+char u , char[]u8x ,// a // b
+char[ 0123456789 ] u128
+//x
+/// triple
+`say ""hi""`
+    ,zchar rootA , f64 x_y_z,
+    } packet uint8x { @calculatedFrom( // " ++ [128512]%N ++ runes_of_ascii " emoji
+""a\""b""
+)  @calculatedFrom( ""CRC32""	)
+repeat char[] trueish ,
+}root packet falsey
+    { repeat// `tick` ""quote"" 'q'
+uint8x
+{ string metadata
+    @calculatedFrom(
+    ""a\\"" )	`" ++ [28040; 24687; 31867; 22411]%N ++ runes_of_ascii "`	, Foo @lengthOf( falsey
+), },}
+")).
+Eval vm_compute in ("<<<M4518>>>" ++ check (runes_of_ascii "options {
+    LittleEndian = false;
+    StringPrefixLenType = u8;
+    ArrayPrefixLenType = u16;
+    FixedStringPadFromLeft = false;
+}
+
+packet Heartbeat {
+    u8 seqNo,
+    @rightPad('\x00')
+    char[8] x,
+}
+
+root packet Trade {
+    repeat Heartbeat,
+    float32 OrderId,
+    i64 Acct,
+    u16 Qty,
+    u16 clOrdID,
+    match clOrdID as Body {
+        131 : Heartbeat,
+    },
+    u16 sym @calculatedFrom(""CR\
+    C32""),
+}")).
+Eval vm_compute in ("<<<M1324>>>" ++ check (runes_of_ascii "
+root	packet A
+// c
+// c
+{/// triple
+repeat string Packet`say ""hi""` ,} MetaData o { char[] u128 `line1
+line2`, lengthOf x_y_z , char[1 ]	i8i8 `a\` , int16 leftPad
+    // a // b
+    `two words`
+    , i16 asx
+,
+} // packet A { u8 x, }
+MetaData
+    charz
+    { Header	a1 , Header // a // b
+trueish
+`u8 x,` // `tick` ""quote"" 'q'
+, u128
+stringy, uint8
+matchKey , uint32 options1, matchKey
+    i8i8 , }")).
+Eval vm_compute in ("<<<M1288>>>" ++ check (runes_of_ascii "packet
+int // @lengthOf(
+{ string crc `{ , }` , repeat	uint8
+roots `doc` ,u32 Logon `
+` ,	}packet
+// " ++ [27880; 37322]%N ++ runes_of_ascii "
+//
+x_y_z
+{metadata {Pad @calculatedFrom( ""it's""
+) `crlf
+line` , char[]asx
+    , Z9_ @lengthOf( x
+    ) `two words` , },tag
+    x_y_z `it's` , @calculatedFrom( ""a	b"" )
+@calculatedFrom(""{,}""
+    ) @rightPad
+    // trailing space 
+    (
+    '\x00'
+    )
+int64 packetx //x
+`` , }")).
 Eval vm_compute in ("<<<M79>>>" ++ check (runes_of_ascii "options { len =
     255 tag=""" ++ [233]%N ++ runes_of_ascii "t" ++ [233]%N ++ runes_of_ascii """ }packet	packetx
 {
@@ -1467,63 +1346,89 @@ line2` ,
 line`	, string repeatCount `line1
 line2` , u128 stringy
     , }")).
-Eval vm_compute in ("<<<M4103>>>" ++ check (runes_of_ascii "MetaData MetaDataX {
-    zchar[42] charz ``,
-    Packet stringy `two words`,
-    u32 uint8x,
-    int chars `
-        `,
-    f32 metadata,
-    char[] string_,
-}
+Eval vm_compute in ("<<<M3686>>>" ++ check (runes_of_ascii "  packet
+	metadata{char[ 0
 
-packet roots {
-    char[7] leftPad,
-    @tag(1)
-    uint8x @calculatedFrom(""`tick`""),
-    @lengthOf(x)
-    lengthOf {
-        repeat uint8x u,
-        char zchar,
-        zchar[10] tag,
-    },
-}")).
-Eval vm_compute in ("<<<M864>>>" ++ check (runes_of_ascii "options{
-    msg_type =false len= 4294967296  ; asx= false
-// a // b
-// `tick` ""quote"" 'q'
-A = '\x00' float= zchar[
-    007 ] }
-packet u128
-{ float32 msg_type `a\`// c
-, } MetaData T{
-int64 o `" ++ [28040; 24687; 31867; 22411]%N ++ runes_of_ascii "`// @lengthOf(
-, char[]
-    Foo  , }options	{packetx =uint32	;	roots
-    = false ; falsey=zchar[
-    00 ]
-}options {
-    Logon = float32 }
+    ] 
+Z9_ `line1
+line2`
+,
 
-")).
-Eval vm_compute in ("<<<M1172>>>" ++ check (runes_of_ascii "packet
-stringy { @lengthOf(
-Packet ) lengthOf @calculatedFrom(""it's"" ) ,  } MetaData x_y_z{ asx rootA `it's` ,
-float32 // " ++ [128512]%N ++ runes_of_ascii " emoji
-trueish
-//x
-// packet A { u8 x, }
-, o Packet , } options {leftPad =true ; len	= 7 //x
-; Pad
-//	t
-// c
-= 42
-    //x
-    ; chars
-    = 65535 ;A =
-    4294967296} MetaData int
+} root
+	packet	chars
+	{
     /// triple
-    { }")).
+  	// @lengthOf(
+	As {
+zchar[	3
+
+    ]
+BodyLength @calculatedFrom(  ""it's""  )
+`line1
+line2` ,	} ,
+}
+	packet
+o 
+{
+
+    @rightPad
+    // trailing space 
+	// trailing space 
+(
+'\x00'
+) string
+
+f32a
+
+@calculatedFrom(
+""it's""
+)`// not a comment` , }
+")).
+Eval vm_compute in ("<<<M87>>>" ++ check (runes_of_ascii "options {
+    x_y_z	= false
+;
+    stringy =
+    """ ++ [233]%N ++ runes_of_ascii "t" ++ [233]%N ++ runes_of_ascii """;
+    // trailing space 
+    crc =
+""" ++ [128512]%N ++ runes_of_ascii """  i8i8=
+'0'
+    ;
+}
+    // `tick` ""quote"" 'q'
+    packet _x { match u128 as tag { ""CRC32"" :stringy , 3
+    //	t
+    : repeatCount ,// " ++ [27880; 37322]%N ++ runes_of_ascii "
+""\" ++ [233]%N ++ runes_of_ascii """ :	float,	[
+"""" ,  """"	, """ ++ [28040; 24687]%N ++ runes_of_ascii """ , ""a\""b"" ]
+    : u8x ,""1""
+:
+    x_y_z
+, } , }packet stringy {
+}
+// " ++ [128512]%N ++ runes_of_ascii " emoji
+")).
+Eval vm_compute in ("<<<M158>>>" ++ check (runes_of_ascii "packet crc { // " ++ [128512]%N ++ runes_of_ascii " emoji
+int `" ++ [28040; 24687; 31867; 22411]%N ++ runes_of_ascii "`,  repeat Header	`doc` ,
+    @tag(
+    // " ++ [128512]%N ++ runes_of_ascii " emoji
+    65535 )
+    leftPad BodyLength
+    `// not a comment` // " ++ [128512]%N ++ runes_of_ascii " emoji
+, /// triple
+char[ 42 ]
+    roots	`` // a // b
+, } packet
+    uint8x
+    // `tick` ""quote"" 'q'
+    { @lengthOf(
+i8i8 )
+// trailing space 
+//	t
+Pad
+    MetaDataX//	t
+,}
+")).
 Eval vm_compute in ("<<<M136>>>" ++ check (runes_of_ascii "options { As
 =char[007 ] ;_x // a // b
 =1
@@ -1546,93 +1451,8 @@ match leftPad
 // `tick` ""quote"" 'q'
 // a // b
 : rootA} , }")).
-Eval vm_compute in ("<<<M1560>>>" ++ check (runes_of_ascii "root packet Foo // " ++ [128512]%N ++ runes_of_ascii " emoji
-{ } options {
-    // a // b
-    tag // `tick` ""quote"" 'q'
-= //	t
-""""
-    ; u8x = zchar[0  ] }
-MetaData
-    int {zchar[ 10]
-lengthOf	`` , i64 u8x`// not a comment` ,MetaDataX MetaDataX pack// `tick` ""quote"" 'q'
-`crlf
-line`
-, Logon charz `crlf
-line`
-    ,
-    // a // b
-    }
-")).
-Eval vm_compute in ("<<<M1482>>>" ++ check (runes_of_ascii "root packet Foo // " ++ [128512]%N ++ runes_of_ascii " emoji
-{ } options {
-    // a // b
-    tag // `tick` ""quote"" 'q'
-= //	t
-""""
-    ; u8x = zchar[""" ++ [233]%N ++ runes_of_ascii "t" ++ [233]%N ++ runes_of_ascii """  ] }
-MetaData
-    int {zchar[ 10]
-lengthOf	`` , i64 u8x`// not a comment` ,MetaDataX pack// `tick` ""quote"" 'q'
-`crlf
-line`
-, Logon charz `crlf
-line`
-    ,
-    // a // b
-    }
-")).
-Eval vm_compute in ("<<<M1470>>>" ++ check (runes_of_ascii "root packet Foo // " ++ [128512]%N ++ runes_of_ascii " emoji
-{ } options {
-    // a // b
-    tag // `tick` ""quote"" 'q'
-= //	t
-""""
-    ; u8x = = zchar[0  ] }
-MetaData
-    int {zchar[ 10]
-lengthOf	`` , i64 u8x`// not a comment` ,MetaDataX pack// `tick` ""quote"" 'q'
-`crlf
-line`
-, Logon charz `crlf
-line`
-    ,
-    // a // b
-    }
-")).
-Eval vm_compute in ("<<<M4434>>>" ++ check (runes_of_ascii "packet calculatedFrom {
-    repeat charz,
-    Logon @calculatedFrom(""packet""),
-    @tag(1)
-    repeat zchar[255] rootA,
-    string calculatedFrom `two words`,
-    @rightPad(' ')
-    @calculatedFrom(""\n"")
-    @tag(4294967296)
-    chars @calculatedFrom(""" ++ [233]%N ++ runes_of_ascii "t" ++ [233]%N ++ runes_of_ascii """) `
-        `,
-    repeat u128 int,
-}")).
-Eval vm_compute in ("<<<M1566>>>" ++ check (runes_of_ascii "root packet Foo // " ++ [128512]%N ++ runes_of_ascii " emoji
-{ } options {
-    // a // b
-    tag // `tick` ""quote"" 'q'
-= //	t
-""""
-    ; u8x = zchar[0  ] }
-MetaData
-    int {zchar[ 10]
-lengthOf	`` , i64 u8x`// not a comment` ,MetaDataX `crlf
-line`// `tick` ""quote"" 'q'
-pack
-, Logon charz `crlf
-line`
-    ,
-    // a // b
-    }
-")).
-Eval vm_compute in ("<<<M1437>>>" ++ check (runes_of_ascii "root packet Foo // " ++ [128512]%N ++ runes_of_ascii " emoji
-{ } false {
+Eval vm_compute in ("<<<M1432>>>" ++ check (runes_of_ascii "root packet Foo // " ++ [128512]%N ++ runes_of_ascii " emoji
+{ @lengthOf( options {
     // a // b
     tag // `tick` ""quote"" 'q'
 = //	t
@@ -1649,13 +1469,13 @@ line`
     // a // b
     }
 ")).
-Eval vm_compute in ("<<<M1474>>>" ++ check (runes_of_ascii "root packet Foo // " ++ [128512]%N ++ runes_of_ascii " emoji
+Eval vm_compute in ("<<<M1455>>>" ++ check (runes_of_ascii "root packet Foo // " ++ [128512]%N ++ runes_of_ascii " emoji
 { } options {
     // a // b
     tag // `tick` ""quote"" 'q'
 = //	t
-""""
-    ; u8x = 0  ] }
+"""" """"
+    ; u8x = zchar[0  ] }
 MetaData
     int {zchar[ 10]
 lengthOf	`` , i64 u8x`// not a comment` ,MetaDataX pack// `tick` ""quote"" 'q'
@@ -1667,645 +1487,756 @@ line`
     // a // b
     }
 ")).
-Eval vm_compute in ("<<<M236>>>" ++ check (runes_of_ascii "root packet
-    x_y_z{ match lengthOf
-as // `tick` ""quote"" 'q'
-rootA { 42 :
-    asx } ,	@rightPad(
-' ' ) repeat u16 int`// not a comment`, @tag(42	)rootA string_, int32 lengthOf // trailing space 
-,match
-    As as falsey { [ ""// no comment"" ] :
-    calculatedFrom,
-    } , }
+Eval vm_compute in ("<<<M1600>>>" ++ check (runes_of_ascii "root packet Foo // " ++ [128512]%N ++ runes_of_ascii " emoji
+{ } options {
+    // a // b
+    tag // `tick` ""quote"" 'q'
+= //	t
+""""
+    ; u8x = zchar[0  ] }
+MetaData
+    int {zchar[ 10]
+lengthOf	`` , i64 u8x`// not a comment` ,MetaDataX pack// `tick` ""quote"" 'q'
+`crlf
+line`
+, Logon charz `crlf
+line`
+    ,
+    // a // b
+    } }
 ")).
-Eval vm_compute in ("<<<M3493>>>" ++ check (runes_of_ascii "packet FooBar
-    // c1
+Eval vm_compute in ("<<<M1452>>>" ++ check (runes_of_ascii "root packet Foo // " ++ [128512]%N ++ runes_of_ascii " emoji
+{ } options {
+    // a // b
+    tag // `tick` ""quote"" 'q'
+} //	t
+""""
+    ; u8x = zchar[0  ] }
+MetaData
+    int {zchar[ 10]
+lengthOf	`` , i64 u8x`// not a comment` ,MetaDataX pack// `tick` ""quote"" 'q'
+`crlf
+line`
+, Logon charz `crlf
+line`
+    ,
+    // a // b
+    }
+")).
+Eval vm_compute in ("<<<M43>>>" ++ check (runes_of_ascii "MetaData Foo
+    {
+    chars i8i8 ,  }MetaData
+// trailing space 
+// " ++ [27880; 37322]%N ++ runes_of_ascii "
+BodyLength{calculatedFrom a1 `it's`
+,
+} packet Z9_ //	t
+{ @calculatedFrom(
+    """ ++ [128512]%N ++ runes_of_ascii """ ) @lengthOf( metadata )
+    string a1
+    /// triple
+    `{ , }` ,
+    match
+u8x as o { 10
+:  Foo // @lengthOf(
+, ""abc"" : falsey},
+}
+")).
+Eval vm_compute in ("<<<M655>>>" ++ check (runes_of_ascii "
+packet Z9_
+{ i8 x_y_z @lengthOf( u128 // packet A { u8 x, }
+)	, }packet stringy
 {
-    // c2
-u8 // c3
-a
-    // c4
-, } // c6
-packet // c7
-foo_bar {
-    // c9
-u16 // c10a
-  // c10b
-b // c11a
-  // c11b
-, // c12a
-  // c12b
-} root // c14a
-  // c14b
-packet // c15
-R
-    // c16
-{ FooBar // c18
-, // c19
-foo_bar , // c21
-} // c22
+@rightPad ( '0'
+) match repeatCount
+as Foo
+    {007 : float
+    }
+,@tag( 0 )repeat	zchar[ 4294967296 ] zchar `" ++ [233]%N ++ runes_of_ascii "` ,
+}MetaData roots {  u8x Pad
+`u8 x,` , uint8 packetx
+,
+/// triple
+// packet A { u8 x, }
+}
 ")).
-Eval vm_compute in ("<<<M14>>>" ++ check (runes_of_ascii "MetaData	packetx {
-    packetx i64_ `say ""hi""` ,  } options {
-    } packet string_ {
-@lengthOf(repeatCount ) len
-{ zchar[ 10]
-// " ++ [128512]%N ++ runes_of_ascii " emoji
+Eval vm_compute in ("<<<M1279>>>" ++ check (runes_of_ascii "root packet packetx
+{ char[ 65535] u
+    , @lengthOf( MetaDataX
+) @lengthOf( rootA ) @lengthOf( u8x
+)  zchar[ 3 ]zchar`
+` ,
+// packet A { u8 x, }
+//	t
+lengthOf len	, repeat A	{
+    // c
+    lengthOf @calculatedFrom( ""x y"" ) ,	zchar[
+// a // b
+// " ++ [27880; 37322]%N ++ runes_of_ascii "
+007]zchar @lengthOf( float	) ,} ,}
+")).
+Eval vm_compute in ("<<<M1549>>>" ++ check (runes_of_ascii "root packet Foo // " ++ [128512]%N ++ runes_of_ascii " emoji
+{ } options {
+    // a // b
+    tag // `tick` ""quote"" 'q'
+= //	t
+""""
+    ; u8x = zchar[0  ] }
+MetaData
+    int {zchar[ 10]
+lengthOf	`` , i64 u8x ,MetaDataX pack// `tick` ""quote"" 'q'
+`crlf
+line`
+, Logon charz `crlf
+line`
+    ,
+    // a // b
+    }
+")).
+Eval vm_compute in ("<<<M766>>>" ++ check (runes_of_ascii "root packet // trailing space 
+crc { @lengthOf(
+//	t
+// " ++ [27880; 37322]%N ++ runes_of_ascii "
+i8i8 )@tag( 42 ) @calculatedFrom( ""CRC32"" )
+//	t
+//x
+repeat x uint8x ,	zchar[
+    // a // b
+    0 ]x_y_z @lengthOf(
+    stringy ), As trueish ,
+} // " ++ [27880; 37322]%N ++ runes_of_ascii "
+root// packet A { u8 x, }
+packet chars{
+    } // " ++ [27880; 37322]%N)).
+Eval vm_compute in ("<<<M1385>>>" ++ check (runes_of_ascii "packet
+    metadata  { @rightPad
+    //x
+    ( '\x00'
+    // c
+    )
+@rightPad
+    ( '\x00'  ) char[] _x @calculatedFrom( ""a\\""	) ,repeat int64
+    roots , repeat // trailing space 
+zchar[ 007 // c
+] i64_,
+match	A
+    as o{
+""1""	: Foo ,
+    } , //x
+}")).
+Eval vm_compute in ("<<<M108>>>" ++ check (runes_of_ascii "packet T {	match Packet as
+// c
+// " ++ [27880; 37322]%N ++ runes_of_ascii "
+Header { 42 : BodyLength , ""// no comment""
 // `tick` ""quote"" 'q'
-u128 ,
-    f32
-    falsey`say ""hi""`
-,uint16// a // b
-f32a
-    `crlf
+// packet A { u8 x, }
+: matchKey ""`tick`"" :
+crc ,	[ 1  ]	:o, } ,	}// " ++ [128512]%N ++ runes_of_ascii " emoji
+packet As {
+} options  { u128
+= //x
+' '
+body=
+    char[] }
+")).
+Eval vm_compute in ("<<<M359>>>" ++ check (runes_of_ascii "
+MetaData falsey
+{uint64
+matchKey
+`// not a comment` ,	char Pad
+    ,
+    int16 Pad
+// packet A { u8 x, }
+// @lengthOf(
+`" ++ [28040; 24687; 31867; 22411]%N ++ runes_of_ascii "`// @lengthOf(
+,
+    zchar[ 00 ]x_y_z, char[] // packet A { u8 x, }
+i64_ , Logon repeatCount `tab	here` ,}")).
+Eval vm_compute in ("<<<M2308>>>" ++ check (runes_of_ascii "MetaData Packet { }packet	asx  { @lengthOf( asx) falsey`crlf
 line`
 ,
-    } , }
-// " ++ [27880; 37322]%N ++ runes_of_ascii "
+    }
+    packet x	{uint32// @lengthOf(
+rootA	@lengthOf(u32 options1 `say ""hi""` , @tag( 7
+    )// packet A { u8 x, }
+msg_type @lengthOf(
+stringy	)	, }
+
 ")).
-Eval vm_compute in ("<<<M3544>>>" ++ check (runes_of_ascii "
-packet Sub
-    {
+Eval vm_compute in ("<<<M4506>>>" ++ check (runes_of_ascii "packet
+u8x {int32
+o
 
-    u8
-a 
-,	u32 
-SubSum	@calculatedFrom(
+    ,}
+    options{//x
+	options1=
 
-    ""CRC16""
+    10 
+	// a // b
+  Header=
+1	// " ++ [27880; 37322]%N ++ runes_of_ascii "
+; lengthOf
+	=
+'\x00'
+;
+	} root packet// packet A { u8 x, }
+falsey
+{	@lengthOf( 
+Header )
+	Foo
+    `" ++ [28040; 24687; 31867; 22411]%N ++ runes_of_ascii "`
 
-    )  ,
+    ,
 }
-root packet  Frame 
-{	u16 MsgType,u16
-	BodyLen
-
-@lengthOf(
-	Body	)
-	,
-	Sub
-Body	, string note
-,u32 Checksum@calculatedFrom(""CRC16""  )	,  u8 tail , }
 ")).
-Eval vm_compute in ("<<<M1293>>>" ++ check (runes_of_ascii "root packet
-    charz {roots falsey	, @lengthOf(
-    // packet A { u8 x, }
-    u8x )T @lengthOf( x) `line1
-line2` /// triple
-,	x
-@calculatedFrom(
-    // a // b
-    ""// no comment"" ),  @leftPad
-    (
-' ' )	zchar[ 0123456789	] string_, }")).
-Eval vm_compute in ("<<<M4010>>>" ++ check (runes_of_ascii "root packet rootA {
-    @leftPad('\x00')
-    @lengthOf(crc)
-    @lengthOf(string_)
-    uint16 Z9_ `
-    `,
-    @lengthOf(Z9_)
-    char[4294967296] zchar `say ""hi""`,
-    u,
-    match int as stringy {
-        3 : body,
+Eval vm_compute in ("<<<M2366>>>" ++ check (runes_of_ascii "MetaData Packet { }packet	asx  { @lengthOf( asx) falsey`crlf
+line`
+,
+    }
+    packet x	{uint32// @lengthOf(
+rootA	,u32 options1 `say ""hi""` , @tag( 7
+    )// packet A { u8 x, }
+msg_type @lengthOf(
+stringy	)	, , }
+
+")).
+Eval vm_compute in ("<<<M2252>>>" ++ check (runes_of_ascii "MetaData Packet { }packet	asx  { @lengthOf( )asx falsey`crlf
+line`
+,
+    }
+    packet x	{uint32// @lengthOf(
+rootA	,u32 options1 `say ""hi""` , @tag( 7
+    )// packet A { u8 x, }
+msg_type @lengthOf(
+stringy	)	, }
+
+")).
+Eval vm_compute in ("<<<M2270>>>" ++ check (runes_of_ascii "MetaData Packet { }packet	asx  { @lengthOf( asx) falsey`crlf
+line`
+
+    }
+    packet x	{uint32// @lengthOf(
+rootA	,u32 options1 `say ""hi""` , @tag( 7
+    )// packet A { u8 x, }
+msg_type @lengthOf(
+stringy	)	, }
+
+")).
+Eval vm_compute in ("<<<M4178>>>" ++ check (runes_of_ascii "options
+
+    {// `tick` ""quote"" 'q'
+	}
+    options // packet A { u8 x, }
+{As=""\n""
+
+    // `tick` ""quote"" 'q'
+  // a // b
+;
+
+} MetaData 
+msg_type
+    { 
+string trueish
+	,	}
+options{A
+=
+    ""{,}"" ;
+
+    }")).
+Eval vm_compute in ("<<<M2248>>>" ++ check (runes_of_ascii "MetaData Packet { }packet	asx  { ; asx) falsey`crlf
+line`
+,
+    }
+    packet x	{uint32// @lengthOf(
+rootA	,u32 options1 `say ""hi""` , @tag( 7
+    )// packet A { u8 x, }
+msg_type @lengthOf(
+stringy	)	, }
+
+")).
+Eval vm_compute in ("<<<M2359>>>" ++ check (runes_of_ascii "MetaData Packet { }packet	asx  { @lengthOf( asx) falsey`crlf
+line`
+,
+    }
+    packet x	{uint32// @lengthOf(
+rootA	,u32 options1 `say ""hi""` , @tag( 7
+    )// packet A { u8 x, }
+msg_type @lengthOf(")).
+Eval vm_compute in ("<<<M674>>>" ++ check (runes_of_ascii "
+MetaData
+// packet A { u8 x, }
+//x
+Pad
+    {int32 MetaDataX, trueish
+//x
+// " ++ [128512]%N ++ runes_of_ascii " emoji
+o `crlf
+line` , string
+Foo , uint32
+    int
+    `two words` ,
+string
+Foo,  string MetaDataX `` //
+, }
+")).
+Eval vm_compute in ("<<<M4078>>>" ++ check (runes_of_ascii "packet A {
+    Inner {
+        match k as n {
+            [
+                1, 22, 007, 4, 5,
+                66, 7, 8, 9, 10,
+                11
+            ] : B,
+        },
     },
 }")).
-Eval vm_compute in ("<<<M2228>>>" ++ check (runes_of_ascii "MetaData Packet { ""CRC32""packet	asx  { @lengthOf( asx) falsey`crlf
-line`
-,
-    }
-    packet x	{uint32// @lengthOf(
-rootA	,u32 options1 `say ""hi""` , @tag( 7
-    )// packet A { u8 x, }
-msg_type @lengthOf(
-stringy	)	, }
-
-")).
-Eval vm_compute in ("<<<M2256>>>" ++ check (runes_of_ascii "MetaData Packet { }packet	asx  { @lengthOf( asx) ) falsey`crlf
-line`
-,
-    }
-    packet x	{uint32// @lengthOf(
-rootA	,u32 options1 `say ""hi""` , @tag( 7
-    )// packet A { u8 x, }
-msg_type @lengthOf(
-stringy	)	, }
-
-")).
-Eval vm_compute in ("<<<M2390>>>" ++ check (runes_of_ascii "MetaData Packet { }packet	asx  { @lengthOf( asx) falsey`crlf
-line`
-,
-    }
-|    packet x	{uint32// @lengthOf(
-rootA	,u32 options1 `say ""hi""` , @tag( 7
-    )// packet A { u8 x, }
-msg_type @lengthOf(
-stringy	)	, }
-
-")).
-Eval vm_compute in ("<<<M2357>>>" ++ check (runes_of_ascii "MetaData Packet { }packet	asx  { @lengthOf( asx) falsey`crlf
-line`
-,
-    }
-    packet x	{uint32// @lengthOf(
-rootA	,u32 options1 `say ""hi""` , @tag( 7
-    )// packet A { u8 x, }
-msg_type @lengthOf(
-)	stringy	, }
-
-")).
-Eval vm_compute in ("<<<M1117>>>" ++ check (runes_of_ascii "MetaData string_
-{ // c
-len
-MetaDataX`
-` , char[] options1
-// " ++ [27880; 37322]%N ++ runes_of_ascii "
-/// triple
-,u tag
-, options1 Z9_ ,
-x // c
-f32a //x
-`line1
-line2`,zchar[ 0123456789 ] pack
-,
-}packet _x {  @leftPad ( ) char[	10
-] roots , }
-")).
-Eval vm_compute in ("<<<M173>>>" ++ check (runes_of_ascii "//
-packet
-    u { }
-    packet
-    u8x { }options  {
-    Logon =string ; calculatedFrom ='\x00'
-;
-BodyLength// " ++ [27880; 37322]%N ++ runes_of_ascii "
-= 1; //	t
-_x// " ++ [27880; 37322]%N ++ runes_of_ascii "
-=""CRC32""; } root
-/// triple
-// " ++ [27880; 37322]%N ++ runes_of_ascii "
-packet Z9_ {
-}
-    MetaData chars  {
-}
-")).
-Eval vm_compute in ("<<<M715>>>" ++ check (runes_of_ascii "packet u128 // packet A { u8 x, }
-{ @tag( 00 )
-    // trailing space 
-    i64 msg_type @calculatedFrom(
-""x y"" ) , repeat //
-calculatedFrom u//
-, @rightPad
-('0')repeat string chars`` , int8 metadata,}
-")).
-Eval vm_compute in ("<<<M4402>>>" ++ check (runes_of_ascii "
-root
-    packet body 
-//	t
-  { 
-@lengthOf(
-    string_
-
-) match
-    f32a
-as
-rootA
-    {
-[
-	""x y""
-] 
-	    // @lengthOf(
-    // trailing space 
-	: packetx
-        //
-	// a // b
-,}
-
-    ,}")).
-Eval vm_compute in ("<<<M1558>>>" ++ check (runes_of_ascii "root packet Foo // " ++ [128512]%N ++ runes_of_ascii " emoji
-{ } options {
-    // a // b
-    tag // `tick` ""quote"" 'q'
-= //	t
-""""
-    ; u8x = zchar[0  ] }
-MetaData
-    int {zchar[ 10]
-lengthOf	`` , i64 u8x`// not a comment`")).
-Eval vm_compute in ("<<<M3>>>" ++ check (runes_of_ascii "packet
-    Foo{
-    uint64  Header @lengthOf( float )
-`
-`
-, // a // b
-char[]_x,@tag( 10
+Eval vm_compute in ("<<<M1203>>>" ++ check (runes_of_ascii "packet i8i8
+    { int64	BodyLength	@calculatedFrom( ""packet"")	,  @leftPad()
+    zchar[ /// triple
+1 ] calculatedFrom ,
+    repeat
+x_y_z , //	t
+T A
+, }MetaData
+charz {
+} // " ++ [27880; 37322]%N)).
+Eval vm_compute in ("<<<M1140>>>" ++ check (runes_of_ascii "packet MetaDataX{repeat Z9_ Header , @lengthOf( rootA
+)  stringy
+`it's` ,
+@tag(65535
     )
-char[] Packet , uint16 stringy @lengthOf(
-    calculatedFrom
-), }//x
-options	{ }")).
-Eval vm_compute in ("<<<M1080>>>" ++ check (runes_of_ascii "packet
-// `tick` ""quote"" 'q'
-// " ++ [27880; 37322]%N ++ runes_of_ascii "
-len
-{
-match x as  pack { // @lengthOf(
-3 : MetaDataX 255
-    :Foo , 00
-:
-o
-}, @calculatedFrom(  ""CRC32"" ) u128@lengthOf(packetx	) ,
-}")).
-Eval vm_compute in ("<<<M98>>>" ++ check (runes_of_ascii "root // trailing space 
-packet Foo
-    // " ++ [128512]%N ++ runes_of_ascii " emoji
-    {
-    //x
-    char[] body`crlf
-line`, // " ++ [128512]%N ++ runes_of_ascii " emoji
-} options {
-    _x=  false
-    }
-packet BodyLength	{
-} 	 ")).
-Eval vm_compute in ("<<<M2349>>>" ++ check (runes_of_ascii "MetaData Packet { }packet	asx  { @lengthOf( asx) falsey`crlf
-line`
-,
-    }
-    packet x	{uint32// @lengthOf(
-rootA	,u32 options1 `say ""hi""` , @tag( 7
-    )")).
-Eval vm_compute in ("<<<M2339>>>" ++ check (runes_of_ascii "MetaData Packet { }packet	asx  { @lengthOf( asx) falsey`crlf
-line`
-,
-    }
-    packet x	{uint32// @lengthOf(
-rootA	,u32 options1 `say ""hi""` , @tag(")).
-Eval vm_compute in ("<<<M1518>>>" ++ check (runes_of_ascii "root packet Foo // " ++ [128512]%N ++ runes_of_ascii " emoji
-{ } options {
-    // a // b
-    tag // `tick` ""quote"" 'q'
-= //	t
-""""
-    ; u8x = zchar[0  ] }
-MetaData
-    int {zchar[")).
-Eval vm_compute in ("<<<M249>>>" ++ check (runes_of_ascii "
-options {
-Header
-    // a // b
-    =
-false float
-=
-""abc"" ;
-i64_  = false ;}options // " ++ [128512]%N ++ runes_of_ascii " emoji
-{
-//
-//x
-repeatCount
-    =
-    ""a\\"";
-}
-//
+repeat
+    Pad// packet A { u8 x, }
+x
+    `
+`//x
+, char[ 42 ] As `doc`
+,	}
 ")).
-Eval vm_compute in ("<<<M1630>>>" ++ check (runes_of_ascii "root packet packet /// triple
+Eval vm_compute in ("<<<M3859>>>" ++ check (runes_of_ascii "packet A {
+    match k as n {
+        [
+            1, 22, ""c c"", 4, 5,
+            ""f"", 7, 8, ""i"", 10,
+            11, ""l""
+        ] : B,
+        2 : C,
+    },
+}")).
+Eval vm_compute in ("<<<M185>>>" ++ check (runes_of_ascii "options {  Logon =
+    ""{,}"" } //	t
+MetaData leftPad { i8 zchar `// not a comment`, } MetaData len
+    {char[] u128	,} // " ++ [27880; 37322]%N ++ runes_of_ascii "
+root
+    packet Pad
+{
+    }")).
+Eval vm_compute in ("<<<M4338>>>" ++ check (runes_of_ascii "packet msg_type {
+    char[] body @calculatedFrom(""1"") `doc`,
+    @tag(00)
+    lengthOf @lengthOf(trueish) `crlf
+        line`,
+}// trailing space ")).
+Eval vm_compute in ("<<<M1105>>>" ++ check (runes_of_ascii "MetaData
+chars { char[]body, char[]leftPad// c
+`tab	here` ,
+    char Packet,f32a
+    trueish,
+rootA
+i64_ ,	} options
+{ rootA=
+    zchar[ 0
+] }")).
+Eval vm_compute in ("<<<M1680>>>" ++ check (runes_of_ascii "root packet /// triple
 rootA {	i32
+MetaDataX@calculatedFrom( ""CRC32"" ) `line1
+line2` , @lengthOf( MetaData BodyLength {
+u8
+rootA, } // c")).
+Eval vm_compute in ("<<<M3453>>>" ++ check (runes_of_ascii "options{	LittleEndian	= true	;	}
+
+    root
+packet
+	P
+	{
+
+    u16
+
+    a ,
+u32
+    Sum
+@calculatedFrom( ""CRC32""
+	) 
+,
+
+    }
+")).
+Eval vm_compute in ("<<<M70>>>" ++ check (runes_of_ascii "MetaData f32a{uint8 // a // b
+repeatCount, x_y_z i8i8, f32 msg_type , charz
+lengthOf `tab	here`, char[	7
+    ]chars,float  x ,
+}
+")).
+Eval vm_compute in ("<<<M1635>>>" ++ check (runes_of_ascii "root packet /// triple
+{ rootA	i32
 MetaDataX@calculatedFrom( ""CRC32"" ) `line1
 line2` , } MetaData BodyLength {
 u8
 rootA, } // c")).
-Eval vm_compute in ("<<<M3861>>>" ++ check (runes_of_ascii "packet A {
-    u8 a,
-}
-
-packet B {
-    u16 b,
-}
-
-root packet P {
-    u8 K,
-    match K as M {
-        1 : A,
-        1 : B,
-    },
-}")).
-Eval vm_compute in ("<<<M3435>>>" ++ check (runes_of_ascii "
-packet	B
-{
-	u8 a	, 
-}
-
-    root
-
-packet P {  u8  K , 
-u8
-    L @lengthOf(
-Body)
-
-,	match
-K as Body
-{  1
-
-    :B,  }	,
-	} ")).
-Eval vm_compute in ("<<<M1704>>>" ++ check (runes_of_ascii "root packet /// triple
+Eval vm_compute in ("<<<M504>>>" ++ check (runes_of_ascii "MetaData
+    u128
+{char[255 ] _x
+`{ , }`
+,
+    string leftPad , u8
+    A
+, zchar[
+0123456789]Foo , char[] As`{ , }` , } 	 ")).
+Eval vm_compute in ("<<<M814>>>" ++ check (runes_of_ascii "root
+    packet  T{  string zchar ,
+zchar[  3] stringy , } packet
+    rootA {
+    u {repeatCount@lengthOf(o)`{ , }` , } , }
+")).
+Eval vm_compute in ("<<<M1660>>>" ++ check (runes_of_ascii "root packet /// triple
 rootA {	i32
-MetaDataX@calculatedFrom( ""CRC32"" ) `line1
+MetaDataX@calculatedFrom( : ) `line1
 line2` , } MetaData BodyLength {
 u8
-,rootA } // c")).
-Eval vm_compute in ("<<<M3799>>>" ++ check (runes_of_ascii "packet A {
-    u16 len @lengthOf(body) `a
-    
-    b`,
-    u32 crc @calculatedFrom(""CRC32"") `a
-    
-    b`,
-    string body,
+rootA, } // c")).
+Eval vm_compute in ("<<<M3423>>>" ++ check (runes_of_ascii "
+options
+
+    { LittleEndian
+
+=	true
+
+    ; } root packet 
+P 
+{ 
+repeat char
+	cs
+    ,
+
+    u8
+
+    x ,
+    }
+
+")).
+Eval vm_compute in ("<<<M1828>>>" ++ check (runes_of_ascii "packet
+    Pad // a // b
+{ i8i8 @calculatedFrom( ""a	b"") `u8 x,` ,
+i8 options{ float// " ++ [128512]%N ++ runes_of_ascii " emoji
+= f64 i64_
+=//	t
+00 }
+")).
+Eval vm_compute in ("<<<M1813>>>" ++ check (runes_of_ascii "packet
+    Pad // a // b
+{ i8i8 @calculatedFrom( ""a	b""[ `u8 x,` ,
+} options{ float// " ++ [128512]%N ++ runes_of_ascii " emoji
+= f64 i64_
+=//	t
+00 }
+")).
+Eval vm_compute in ("<<<M2992>>>" ++ check (runes_of_ascii "packet A {
+  match k as n {
+    [""a"", ""bb"", ""c c"", ""d"", ""e"", ""f"", ""g"", ""h"", ""i"", ""j"", ""k"", ""l""] : B
+    2 : C
+  },
 }")).
-Eval vm_compute in ("<<<M392>>>" ++ check (runes_of_ascii "root packet
-roots {
-    BodyLength asx
-    ,a1//
-,@tag(7
-    )zchar[
-42 ]
-BodyLength , // " ++ [27880; 37322]%N ++ runes_of_ascii "
-x_y_z `u8 x,`
-,f64 packetx ,}")).
-Eval vm_compute in ("<<<M1838>>>" ++ check (runes_of_ascii "packet
-    Pad // a // b
-{ i8i8 @calculatedFrom( ""a	b"") `u8 x,` ,
-} options true float// " ++ [128512]%N ++ runes_of_ascii " emoji
-= f64 i64_
-=//	t
-00 }
+Eval vm_compute in ("<<<M907>>>" ++ check (runes_of_ascii "options{ zchar
+/// triple
+// a // b
+=42 //
+i64_ = char[]T=
+    // trailing space 
+    char repeatCount =
+' ' ;}
+
 ")).
-Eval vm_compute in ("<<<M1868>>>" ++ check (runes_of_ascii "packet
-    Pad // a // b
-{ i8i8 @calculatedFrom( ""a	b"") `u8 x,` ,
-} options{ float// " ++ [128512]%N ++ runes_of_ascii " emoji
-= f64 i64_
-=//	t
-root }
-")).
-Eval vm_compute in ("<<<M790>>>" ++ check (runes_of_ascii "// @lengthOf(
-packet u128
-    // `tick` ""quote"" 'q'
-    { char[ 0123456789 // " ++ [27880; 37322]%N ++ runes_of_ascii "
-]A @lengthOf( Packet  ) `u8 x,`, }
-")).
-Eval vm_compute in ("<<<M1810>>>" ++ check (runes_of_ascii "packet
-    Pad // a // b
-{ i8i8 @calculatedFrom( ""a	b"" `u8 x,` ,
-} options{ float// " ++ [128512]%N ++ runes_of_ascii " emoji
-= f64 i64_
-=//	t
-00 }
-")).
-Eval vm_compute in ("<<<M691>>>" ++ check (runes_of_ascii "packet o
-{ } packet  MetaDataX{
-} root packet u8x {MetaDataX @calculatedFrom(""\n"" ) ,
-    } // packet A { u8 x, }")).
-Eval vm_compute in ("<<<M512>>>" ++ check (runes_of_ascii "packet	f32a { i16 uint8x@lengthOf( a1 ) ,
-    /// triple
-    @lengthOf( body ) u64 u ,// packet A { u8 x, }
+Eval vm_compute in ("<<<M3992>>>" ++ check (runes_of_ascii "
+
+  packet A	{ match
+	k as
+
+    n
+
+{	[
+    ""a""
+	,
+""bb""
+, 
+007 ,
+    ""d"" , ""e""]  :
+    B  2 : 
+C}
+    , 
 }
 
 ")).
-Eval vm_compute in ("<<<M3639>>>" ++ check (runes_of_ascii "packet i8i8 {
-    @tag(00)
-    @lengthOf(chars)
-    @leftPad('\x00')
-    A @calculatedFrom(""it's"") `{ , }`,
-}")).
-Eval vm_compute in ("<<<M3454>>>" ++ check (runes_of_ascii "options {
-    LittleEndian = true;
-}
-root packet P {
-    u16 a,
-    u32 Sum @calculatedFrom(""CR\
-C32""),
-}
+Eval vm_compute in ("<<<M3646>>>" ++ check (runes_of_ascii "
+options
+    {
+Foo =
+
+""`tick`""
+	pack
+	= 
+  //
+	""" ++ [233]%N ++ runes_of_ascii "t" ++ [233]%N ++ runes_of_ascii """
+;
+leftPad  =
+false ;
+    int =char[] ;a1
+=
+	i16; }
+
 ")).
-Eval vm_compute in ("<<<M3341>>>" ++ check (runes_of_ascii "packet calculatedFrom // c
-{ @tag( 4294967296 ) u msg_type , char[ 3 ] crc @lengthOf( len ) `u8 x,` , }")).
-Eval vm_compute in ("<<<M3373>>>" ++ check (runes_of_ascii "packet calculatedFrom { @tag( 4294967296 ) u msg_type , char[ 3 ] crc @lengthOf( len ) `u8 x,` , // c
-}")).
-Eval vm_compute in ("<<<M843>>>" ++ check (runes_of_ascii "  packet crc { repeat int64 string_
-    `" ++ [28040; 24687; 31867; 22411]%N ++ runes_of_ascii "` , } root packet
-leftPad {
-    } MetaData A{
-}
+Eval vm_compute in ("<<<M4446>>>" ++ check (runes_of_ascii "
+packet o  {
+
+    @tag( 
+42
+    ) 
+repeat
+    x{char[ 0123456789  ] // c
+  i64_,
+}  ,	}
+options
+{ }
+")).
+Eval vm_compute in ("<<<M3348>>>" ++ check (runes_of_ascii "packet calculatedFrom { @tag( 4294967296
 // c
-")).
-Eval vm_compute in ("<<<M1055>>>" ++ check (runes_of_ascii "
-MetaData u { stringy metadata
-`// not a comment` , u8 len
-, _x a1, string
-    Z9_
-    ,
+) u msg_type , char[ 3 ] crc @lengthOf( len ) `u8 x,` , }")).
+Eval vm_compute in ("<<<M1093>>>" ++ check (runes_of_ascii "MetaData
+    f32a  { u8
+    roots`doc`  , zchar[ 7 ] uint8x ,
+    matchKey
+    u128 `tab	here` ,
     }")).
-Eval vm_compute in ("<<<M3223>>>" ++ check (runes_of_ascii "packet Logon { @tag(
-// c
-42 ) @rightPad ( ' ' ) @leftPad ( ) repeat trueish { string T , } , }")).
-Eval vm_compute in ("<<<M3255>>>" ++ check (runes_of_ascii "packet Logon { @tag( 42 ) @rightPad ( ' ' ) @leftPad ( ) repeat trueish { string T , }
-// c
-, }")).
+Eval vm_compute in ("<<<M3980>>>" ++ check (runes_of_ascii "packet int{ 
+}
+    // packet A { u8 x, }
+packet 
+Pad { repeat  zchar[ 7
+    ]	body`" ++ [233]%N ++ runes_of_ascii "`
+
+    ,  }
+
+")).
+Eval vm_compute in ("<<<M2961>>>" ++ check (runes_of_ascii "packet A {
+  match k as n {
+    [""a"", ""bb"", 007, ""d"", ""e"", 66, ""g"", ""h"", 9] : B
+    2 : C
+  },
+}")).
+Eval vm_compute in ("<<<M3224>>>" ++ check (runes_of_ascii "packet Logon { @tag( 42 // c
+) @rightPad ( ' ' ) @leftPad ( ) repeat trueish { string T , } , }")).
+Eval vm_compute in ("<<<M3256>>>" ++ check (runes_of_ascii "packet Logon { @tag( 42 ) @rightPad ( ' ' ) @leftPad ( ) repeat trueish { string T , } , // c
+}")).
 Eval vm_compute in ("<<<M1963>>>" ++ check (runes_of_ascii "root
 packet packet crc
     { f32a @calculatedFrom( """ ++ [233]%N ++ runes_of_ascii "t" ++ [233]%N ++ runes_of_ascii """ )
     `say ""hi""`, lengthOf `` ,  }")).
-Eval vm_compute in ("<<<M1356>>>" ++ check (runes_of_ascii "MetaData u	{ i32 i8i8`u8 x,` , MetaDataX
-// " ++ [27880; 37322]%N ++ runes_of_ascii "
-// " ++ [27880; 37322]%N ++ runes_of_ascii "
-pack `
-` , Logon zchar
-    `doc` ,}
-")).
-Eval vm_compute in ("<<<M2017>>>" ++ check (runes_of_ascii "root
+Eval vm_compute in ("<<<M3961>>>" ++ check (runes_of_ascii "
+packet A
+
+{ match 
+k as
+n 
+{
+    [
+
+    1
+, ""bb"" 
+, 007 
+,  ""d"" ,5 ] 
+:B 
+2:  C	}  ,}")).
+Eval vm_compute in ("<<<M1137>>>" ++ check (runes_of_ascii "packet roots {rootA @lengthOf(
+    trueish ) `line1
+line2` , int16 Packet
+`" ++ [28040; 24687; 31867; 22411]%N ++ runes_of_ascii "` , } 	 ")).
+Eval vm_compute in ("<<<M2033>>>" ++ check (runes_of_ascii "root
+packet crc
+    { f32a @calculatedFrom(# """ ++ [233]%N ++ runes_of_ascii "t" ++ [233]%N ++ runes_of_ascii """ )
+    `say ""hi""`, lengthOf `` ,  }")).
+Eval vm_compute in ("<<<M2013>>>" ++ check (runes_of_ascii "root
 packet crc
     { f32a @calculatedFrom( """ ++ [233]%N ++ runes_of_ascii "t" ++ [233]%N ++ runes_of_ascii """ )
-    `say ""hi""`, lengthOf `` , ,  }")).
-Eval vm_compute in ("<<<M1960>>>" ++ check (runes_of_ascii "packet
-root crc
-    { f32a @calculatedFrom( """ ++ [233]%N ++ runes_of_ascii "t" ++ [233]%N ++ runes_of_ascii """ )
-    `say ""hi""`, lengthOf `` ,  }")).
-Eval vm_compute in ("<<<M2921>>>" ++ check (runes_of_ascii "packet A {
-  match k as n {
-    [""a"", ""bb"", 007, ""d"", ""e"", 66] : B,
-    2 : C
-  },
-}")).
-Eval vm_compute in ("<<<M256>>>" ++ check (runes_of_ascii "packet matchKey {
-@tag( 7
-    ) @leftPad
-    //x
-    ( '\x00')
-    string_ ,	} 	 ")).
-Eval vm_compute in ("<<<M3314>>>" ++ check (runes_of_ascii "packet o { @tag( 42 ) repeat x { char[ 0123456789 // c
-] i64_ , } , } options { }")).
-Eval vm_compute in ("<<<M3179>>>" ++ check (runes_of_ascii "packet A { u16 // a
- len // b
- @lengthOf( // c
- body // d
- ) // e
- `d` // f
- , }")).
-Eval vm_compute in ("<<<M4388>>>" ++ check (runes_of_ascii "
-packet 
-len{
-    Logon@calculatedFrom( 	 // a // b
-""a\""b""
-
-    ),
-
-    }
-")).
-Eval vm_compute in ("<<<M2912>>>" ++ check (runes_of_ascii "packet A {
-  match k as n {
-    [1, 22, 007, 4, 5, 66] : B
-    2 : C
-  },
-}")).
-Eval vm_compute in ("<<<M779>>>" ++ check (runes_of_ascii "MetaData
-    repeatCount {
-    T matchKey
-    , float Packet
-    ,
-    }")).
-Eval vm_compute in ("<<<M2195>>>" ++ check (runes_of_ascii "root
-    // `tick` ""quote"" 'q'
-    @tagpacket As { trueish Packet , }
-")).
-Eval vm_compute in ("<<<M1666>>>" ++ check (runes_of_ascii "root packet /// triple
-rootA {	i32
-MetaDataX@calculatedFrom( ""CRC32""")).
-Eval vm_compute in ("<<<M2824>>>" ++ check (runes_of_ascii "false @rightPad u8x true u64 ] repeat char uint16 [ MetaData options")).
-Eval vm_compute in ("<<<M2159>>>" ++ check (runes_of_ascii "root
-    // `tick` ""quote"" 'q'
-    As packet { trueish Packet , }
-")).
-Eval vm_compute in ("<<<M3912>>>" ++ check (runes_of_ascii "  options 
-{ }
-packet
-_x
-
-{ 
-}
-
-    packet
-
-matchKey
-    {	}
-
-")).
-Eval vm_compute in ("<<<M1453>>>" ++ check (runes_of_ascii "root packet Foo // " ++ [128512]%N ++ runes_of_ascii " emoji
+    `say ""hi""`, lengthOf , ``  }")).
+Eval vm_compute in ("<<<M1605>>>" ++ check (runes_of_ascii "root packet Foo // " ++ [128512]%N ++ runes_of_ascii " emoji
 { } options {
     // a // b
-    tag")).
-Eval vm_compute in ("<<<M1937>>>" ++ check (runes_of_ascii "
+    tag // `tick` ""quote"" 'q")).
+Eval vm_compute in ("<<<M2933>>>" ++ check (runes_of_ascii "packet A {
+  match k as n {
+    [1, 22, ""c c"", 4, 5, ""f"", 7] : B
+    2 : C
+  },
+}")).
+Eval vm_compute in ("<<<M3323>>>" ++ check (runes_of_ascii "packet o { @tag( 42 ) repeat x { char[ 0123456789 ] i64_ , }
+// c
+, } options { }")).
+Eval vm_compute in ("<<<M436>>>" ++ check (runes_of_ascii "
+root packet	f32a {packetx
+@calculatedFrom( ""CRC32""
+    )
+// a // b
+//x
+,  }
+")).
+Eval vm_compute in ("<<<M2015>>>" ++ check (runes_of_ascii "root
+packet crc
+    { f32a @calculatedFrom( """ ++ [233]%N ++ runes_of_ascii "t" ++ [233]%N ++ runes_of_ascii """ )
+    `say ""hi""`, lengthOf")).
+Eval vm_compute in ("<<<M1996>>>" ++ check (runes_of_ascii "root
+packet crc
+    { f32a @calculatedFrom( """ ++ [233]%N ++ runes_of_ascii "t" ++ [233]%N ++ runes_of_ascii """ )
+    , lengthOf `` ,  }")).
+Eval vm_compute in ("<<<M2907>>>" ++ check (runes_of_ascii "packet A {
+  match k as n {
+    [1, 22, ""c c"", 4, 5] : B
+    2 : C
+  },
+}")).
+Eval vm_compute in ("<<<M1272>>>" ++ check (runes_of_ascii "  options{
+calculatedFrom //x
+= true i8i8 = ""a	b"";  f32a
+= false
+; }
+")).
+Eval vm_compute in ("<<<M4002>>>" ++ check (runes_of_ascii "packet chars // packet A { u8 x, }
+    	{
+}	packet 
+u
+{
+	} 
+	//	t
+ 
+")).
+Eval vm_compute in ("<<<M2203>>>" ++ check (runes_of_ascii "root
+    // `tick` ""quote"" 'q'
+    packet As { trueish Packet , "" }
+")).
+Eval vm_compute in ("<<<M1377>>>" ++ check (runes_of_ascii "options
+{ trueish// @lengthOf(
+= // @lengthOf(
+zchar[65535 ]; }
+")).
+Eval vm_compute in ("<<<M2865>>>" ++ check (runes_of_ascii "packet A {
+  match k as n {
+    [""a"", ""bb""] : B,
+    2 : C
+  },
+}")).
+Eval vm_compute in ("<<<M4419>>>" ++ check (runes_of_ascii "
+// " ++ [128512]%N ++ runes_of_ascii " emoji
+  MetaData
+u
+	{  int Foo,
+f32a
+stringy
+`doc`,
+
+}
+")).
+Eval vm_compute in ("<<<M1923>>>" ++ check (runes_of_ascii "
 packet	As { @calculatedFrom(//x
-""{,}""	)lengthOf , zchar[ 	 ")).
+""{,}""	match lengthOf , } 	 ")).
 Eval vm_compute in ("<<<M1901>>>" ++ check (runes_of_ascii "
 packet	As As { @calculatedFrom(//x
 ""{,}""	)lengthOf , } 	 ")).
-Eval vm_compute in ("<<<M57>>>" ++ check (runes_of_ascii "MetaData stringy { uint8
-//x
-// @lengthOf(
-string_
-, }
-")).
-Eval vm_compute in ("<<<M2269>>>" ++ check (runes_of_ascii "MetaData Packet { }packet	asx  { @lengthOf( asx) falsey")).
-Eval vm_compute in ("<<<M1235>>>" ++ check (runes_of_ascii "root packet Pad { zchar[7 ]
-    float // a // b
-, }
-")).
-Eval vm_compute in ("<<<M2404>>>" ++ check (runes_of_ascii "MetaData A
+Eval vm_compute in ("<<<M4217>>>" ++ check (runes_of_ascii "root packet A {
+    u8 x `a
+            b
+          c`,
+}")).
+Eval vm_compute in ("<<<M1927>>>" ++ check (runes_of_ascii "
+packet	As { @calculatedFrom(//x
+""{,}""	), lengthOf } 	 ")).
+Eval vm_compute in ("<<<M2808>>>" ++ check (runes_of_ascii "match , ) u32 @lengthOf( [ int16 00 u8 ) = u16 { u16")).
+Eval vm_compute in ("<<<M2417>>>" ++ check (runes_of_ascii "MetaData A
 {
 i64
-chars	@x, } // `tick` ""quote"" 'q'")).
-Eval vm_compute in ("<<<M150>>>" ++ check (runes_of_ascii "options {float
-    = 4294967296 ;} options
-{ }
+chars	' ' } // `tick` ""quote"" 'q'")).
+Eval vm_compute in ("<<<M644>>>" ++ check (runes_of_ascii "// trailing space 
+packet chars { string len , }")).
+Eval vm_compute in ("<<<M2259>>>" ++ check (runes_of_ascii "MetaData Packet { }packet	asx  { @lengthOf( asx")).
+Eval vm_compute in ("<<<M4310>>>" ++ check (runes_of_ascii "
+packet  A{
+
+    }  // a
+  // b
+      // c
 ")).
-Eval vm_compute in ("<<<M1925>>>" ++ check (runes_of_ascii "
-packet	As { @calculatedFrom(//x
-""{,}""	) , } 	 ")).
-Eval vm_compute in ("<<<M405>>>" ++ check (runes_of_ascii "options
-    { x
-=
-    //	t
-    zchar[65535 ]}")).
-Eval vm_compute in ("<<<M3053>>>" ++ check (runes_of_ascii "options {
-    a = ""x\
-y"";
-    b = ""x\
-y""
-}")).
-Eval vm_compute in ("<<<M1913>>>" ++ check (runes_of_ascii "
-packet	As { f32//x
-""{,}""	)lengthOf , } 	 ")).
-Eval vm_compute in ("<<<M3816>>>" ++ check (runes_of_ascii "  packet
-	A {u8 
-x
-    `d" ++ [6158]%N ++ runes_of_ascii "` ,  // c" ++ [6158]%N ++ runes_of_ascii "
-	} ")).
-Eval vm_compute in ("<<<M3192>>>" ++ check (runes_of_ascii "MetaData zchar // c
-{ zchar[ 3 ] Pad , }")).
-Eval vm_compute in ("<<<M2193>>>" ++ check (runes_of_ascii "root
+Eval vm_compute in ("<<<M2170>>>" ++ check (runes_of_ascii "root
     // `tick` ""quote"" 'q'
-    pack")).
-Eval vm_compute in ("<<<M3152>>>" ++ check (runes_of_ascii "packet A {    u8 x, // c    u8 y,}")).
-Eval vm_compute in ("<<<M2150>>>" ++ check (runes_of_ascii "MetaData x
-{// " ++ [128512]%N ++ runes_of_ascii " emoji
-i16 na" ++ [239]%N ++ runes_of_ascii "ve , }")).
-Eval vm_compute in ("<<<M3851>>>" ++ check (runes_of_ascii "options {
-    metadata = ""packet""
-}")).
-Eval vm_compute in ("<<<M2828>>>" ++ check (runes_of_ascii "u64 root options `` char[] """" = :")).
-Eval vm_compute in ("<<<M289>>>" ++ check (runes_of_ascii "options
-    // " ++ [128512]%N ++ runes_of_ascii " emoji
-    { }
-")).
-Eval vm_compute in ("<<<M3078>>>" ++ check (runes_of_ascii "packet A {
- u8 x `d" ++ [133]%N ++ runes_of_ascii "`, // c" ++ [133]%N ++ runes_of_ascii "
-}")).
-Eval vm_compute in ("<<<M3834>>>" ++ check (runes_of_ascii "options {
-    string_ = 007
-}")).
-Eval vm_compute in ("<<<M1985>>>" ++ check (runes_of_ascii "root
-packet crc
-    { f32a")).
-Eval vm_compute in ("<<<M2445>>>" ++ check (runes_of_ascii "int8 int16 int32 int64 int")).
-Eval vm_compute in ("<<<M2745>>>" ++ check (runes_of_ascii "{ [ as uint64 @tag( char[")).
-Eval vm_compute in ("<<<M3169>>>" ++ check (runes_of_ascii "packet A { // a
- u8 x, }")).
-Eval vm_compute in ("<<<M2590>>>" ++ check (runes_of_ascii "packet A { x @tag(1), }")).
-Eval vm_compute in ("<<<M3766>>>" ++ check (runes_of_ascii "  MetaData 
-Logon	{ } ")).
-Eval vm_compute in ("<<<M182>>>" ++ check (runes_of_ascii "root packet As { }
+    packet As")).
+Eval vm_compute in ("<<<M847>>>" ++ check (runes_of_ascii "// a // b
+options{ Logon = 255 // " ++ [27880; 37322]%N ++ runes_of_ascii "
+;}
 
 ")).
-Eval vm_compute in ("<<<M2593>>>" ++ check (runes_of_ascii "packet A { B { }, }")).
-Eval vm_compute in ("<<<M2764>>>" ++ check (runes_of_ascii "p*ytL24P\39v6K0pl$")).
-Eval vm_compute in ("<<<M3132>>>" ++ check (runes_of_ascii "// c" ++ [8203]%N ++ runes_of_ascii "
-packet A {
-}")).
-Eval vm_compute in ("<<<M3069>>>" ++ check (runes_of_ascii "packet A {
-}// c" ++ [160]%N)).
-Eval vm_compute in ("<<<M4440>>>" ++ check (runes_of_ascii "packet chars {
-}")).
-Eval vm_compute in ("<<<M2730>>>" ++ check (runes_of_ascii "@tag( ) uint64")).
-Eval vm_compute in ("<<<M915>>>" ++ check (runes_of_ascii "options{ }
+Eval vm_compute in ("<<<M3207>>>" ++ check (runes_of_ascii "MetaData zchar { zchar[ 3 ] Pad , }
+// c
 ")).
-Eval vm_compute in ("<<<M2750>>>" ++ check (runes_of_ascii "} } i64 ]")).
-Eval vm_compute in ("<<<M2709>>>" ++ check (runes_of_ascii ") char[")).
-Eval vm_compute in ("<<<M1334>>>" ++ check (runes_of_ascii "// c
+Eval vm_compute in ("<<<M3191>>>" ++ check (runes_of_ascii "MetaData
+// c
+zchar { zchar[ 3 ] Pad , }")).
+Eval vm_compute in ("<<<M2146>>>" ++ check (runes_of_ascii "MetaData x
+{// " ++ [128512]%N ++ runes_of_ascii " emoji
+i1%6 stringy , }")).
+Eval vm_compute in ("<<<M3152>>>" ++ check (runes_of_ascii "packet A {    u8 x, // c    u8 y,}")).
+Eval vm_compute in ("<<<M2132>>>" ++ check (runes_of_ascii "MetaData x
+{// " ++ [128512]%N ++ runes_of_ascii " emoji
+i16 stringy ,")).
+Eval vm_compute in ("<<<M2579>>>" ++ check (runes_of_ascii "packet A { char[3] @lengthOf(y), }")).
+Eval vm_compute in ("<<<M330>>>" ++ check (runes_of_ascii "packet Logon
+    { }packet _x{}
 ")).
-Eval vm_compute in ("<<<M3095>>>" ++ check (runes_of_ascii "// c" ++ [8232]%N)).
-Eval vm_compute in ("<<<M2543>>>" ++ check (runes_of_ascii "a
-b")).
-Eval vm_compute in ("<<<M2547>>>" ++ check (runes_of_ascii "a" ++ [12]%N ++ runes_of_ascii "b")).
-Eval vm_compute in ("<<<M2830>>>" ++ check (runes_of_ascii "qp")).
+Eval vm_compute in ("<<<M3682>>>" ++ check (runes_of_ascii "options {
+    matchKey = '0';
+}")).
+Eval vm_compute in ("<<<M3108>>>" ++ check (runes_of_ascii "packet A {
+ u8 x `d" ++ [8239]%N ++ runes_of_ascii "`, // c" ++ [8239]%N ++ runes_of_ascii "
+}")).
+Eval vm_compute in ("<<<M1092>>>" ++ check (runes_of_ascii "MetaData BodyLength //	t
+{ }")).
+Eval vm_compute in ("<<<M2646>>>" ++ check (runes_of_ascii "MetaData M { repeat u8 x, }")).
+Eval vm_compute in ("<<<M2592>>>" ++ check (runes_of_ascii "packet A { x @leftPad(), }")).
+Eval vm_compute in ("<<<M3270>>>" ++ check (runes_of_ascii "
+// c
+options { u8x = 3 }")).
+Eval vm_compute in ("<<<M3272>>>" ++ check (runes_of_ascii "options
+// c
+{ u8x = 3 }")).
+Eval vm_compute in ("<<<M2590>>>" ++ check (runes_of_ascii "packet A { x @tag(1), }")).
+Eval vm_compute in ("<<<M2766>>>" ++ check ([28; 31; 65533; 22; 1; 65533]%N ++ runes_of_ascii "W" ++ [65533]%N ++ runes_of_ascii "??=" ++ [65533]%N ++ runes_of_ascii "Bq" ++ [65533]%N ++ runes_of_ascii "[" ++ [65533; 65533; 15]%N ++ runes_of_ascii "\)$")).
+Eval vm_compute in ("<<<M218>>>" ++ check (runes_of_ascii "
+packet len
+    { }")).
+Eval vm_compute in ("<<<M2637>>>" ++ check (runes_of_ascii "root MetaData M { }")).
+Eval vm_compute in ("<<<M2712>>>" ++ check (runes_of_ascii "dA]ucOM4KH8ZrzZ}/;")).
+Eval vm_compute in ("<<<M3121>>>" ++ check (runes_of_ascii "packet A {
+}
+// c" ++ [12]%N)).
+Eval vm_compute in ("<<<M2855>>>" ++ check (runes_of_ascii "65535 65535 false")).
+Eval vm_compute in ("<<<M3616>>>" ++ check (runes_of_ascii "//	t
+options {
+}")).
+Eval vm_compute in ("<<<M2798>>>" ++ check (runes_of_ascii "/" ++ [65533]%N ++ runes_of_ascii "FS" ++ [65533]%N ++ runes_of_ascii "A" ++ [65533; 65533; 65533]%N ++ runes_of_ascii "q" ++ [65533; 65533; 65533]%N ++ runes_of_ascii "%")).
+Eval vm_compute in ("<<<M2485>>>" ++ check (runes_of_ascii "@lengthOf (")).
+Eval vm_compute in ("<<<M1877>>>" ++ check (runes_of_ascii "packet
+ ")).
+Eval vm_compute in ("<<<M1228>>>" ++ check (runes_of_ascii " // " ++ [27880; 37322]%N)).
+Eval vm_compute in ("<<<M2448>>>" ++ check (runes_of_ascii "true1")).
+Eval vm_compute in ("<<<M3140>>>" ++ check (runes_of_ascii "// c" ++ [6158]%N)).
+Eval vm_compute in ("<<<M1318>>>" ++ check (runes_of_ascii "
+
+
+")).
+Eval vm_compute in ("<<<M2803>>>" ++ check (runes_of_ascii "4KK")).
+Eval vm_compute in ("<<<M2503>>>" ++ check (runes_of_ascii """")).
